@@ -1,15 +1,17 @@
 """C01 - a signature is exactly the set of prefix-anchored k-mers on both strands.
 
-K1 search loops (window, restart, exit, yielded position/strand)   K2 slice arithmetic (+K2.0 harvest)
+K1 search trace per strand (window, restart, exit on the miss, yielded position/strand)   K2 slice arithmetic (+K2.0 harvest)
 K3 composition and bounds   K4 strand dispatch   K5 skip discipline   K6 case folding
 K7 accumulator siblings   K8 dtype table (evaluated for every k in 1..32)   K9 per-sequence loop   K10 input types
 """
 import ast
+import copy
+import re
 
-from ..affine import Aff, sym, const, NotAffine
-from ..astutil import (u, atoms, guard_map, path_atoms, stmts_in, calls_in, callee, callee_attr, reaching_def, def_value,
-                       PARAM, AMBIGUOUS, raised_name, assigns_to, get_arg, walk_no_nested, is_const, block_path,
-                       find_parent_map, always_exits)
+from ..affine import Aff, sym, const
+from ..astutil import (u, atoms, guard_map, path_atoms, stmts_in, calls_in, callee_attr, reaching_def, def_value,
+                       PARAM, AMBIGUOUS, raised_name, assigns_to, get_arg, is_const, is_none, block_path,
+                       always_exits, walk_ordered, assigned_targets, names_in)
 from ..mini import Mini, Return
 from ..report import Undecided
 from . import c07
@@ -25,17 +27,220 @@ def spec_env(base):
     return env
 
 
-def straightline_env(func, env):
-    """Copy-propagate single-assignment locals whose value is affine under env."""
-    env = dict(env)
-    for s in func.body:
-        if isinstance(s, ast.Assign) and len(s.targets) == 1 and isinstance(s.targets[0], ast.Name):
-            name = s.targets[0].id
-            if len(assigns_to(func, name)) == 1:
-                a = Aff.try_of(s.value, env)
-                if a is not None:
-                    env[name] = a
-    return env
+# ------------------------------------------------------------------------------------------------ symbolic evaluation
+# The rules below do not match statement shapes.  They evaluate the anchor functions symbolically: locals are replaced by
+# the expressions that define them (so `stop = pos - P + 1; slice(stop - K, stop)` and the spelled-out slice are the same
+# value), control flow is followed per path (an if/else statement, a guard clause with early return and a conditional
+# expression are the same thing: a value under a path condition), and what is compared is the value that reaches the
+# anchor (a return, a call argument, a find() bound) together with the condition under which it does.
+
+class _Subst(ast.NodeTransformer):
+    def __init__(self, env, skip=()):
+        self.env, self.skip = env, set(skip)
+
+    def visit_Name(self, node):
+        if isinstance(node.ctx, ast.Load) and node.id in self.env and node.id not in self.skip:
+            return copy.deepcopy(self.env[node.id])
+        return node
+
+
+def _scoped_names(expr):
+    out = set()
+    for n in ast.walk(expr):
+        if isinstance(n, ast.comprehension):
+            out |= {x.id for x in ast.walk(n.target) if isinstance(x, ast.Name)}
+        elif isinstance(n, ast.Lambda):
+            a = n.args
+            out |= {x.arg for x in a.posonlyargs + a.args + a.kwonlyargs}
+    return out
+
+
+def subst(expr, env):
+    """expr with every local replaced by its defining expression (names bound inside expr itself are left alone)."""
+    if expr is None:
+        return None
+    return _Subst(env, _scoped_names(expr)).visit(copy.deepcopy(expr))
+
+
+_NEG = {'true': 'false', 'false': 'true', 'eq': 'ne', 'ne': 'eq', 'is': 'isnot', 'isnot': 'is', 'in': 'notin', 'notin': 'in'}
+
+
+_PURE_CALLS = {'isinstance', 'len', 'hasattr', 'callable', 'issubclass', 'type'}
+
+
+def _neg(a):
+    if a[0] in ('lt', 'le'):
+        return ('le' if a[0] == 'lt' else 'lt', a[2], a[1])
+    return (_NEG[a[0]],) + tuple(a[1:])
+
+
+def decide(test, at, key=u):
+    """Truth value of `test` implied by the facts `at` (True / False / None = not implied)."""
+    if any(isinstance(n, ast.Call) and u(n.func) not in _PURE_CALLS for n in ast.walk(test)):
+        return None          # the same text may evaluate differently the second time
+    t, f = atoms(test, True, key), atoms(test, False, key)
+    if t and t <= at:
+        return True
+    if f and f <= at:
+        return False
+    if t and any(_neg(a) in at for a in t):
+        return False
+    if f and any(_neg(a) in at for a in f):
+        return True
+    return None
+
+
+class _Repl(ast.NodeTransformer):
+    def __init__(self, old, new):
+        self.old, self.new = old, new
+
+    def visit(self, node):
+        if node is self.old:
+            return self.new
+        return self.generic_visit(node)
+
+
+def lift(expr, at, guards=()):
+    """Resolve every conditional expression inside expr: yields (expr', facts', guards') per feasible combination."""
+    idx = next((i for i, n in enumerate(walk_ordered(expr)) if isinstance(n, ast.IfExp)), None)
+    if idx is None:
+        yield expr, at, tuple(guards)
+        return
+    node = next(n for i, n in enumerate(walk_ordered(expr)) if i == idx)
+    d = decide(node.test, at)
+    for pol in ([d] if d is not None else [True, False]):
+        e2 = copy.deepcopy(expr)
+        n2 = next(n for i, n in enumerate(walk_ordered(e2)) if i == idx)
+        arm = n2.body if pol else n2.orelse
+        e3 = arm if idx == 0 else _Repl(n2, arm).visit(e2)
+        yield from lift(e3, at | (atoms(node.test, pol) or set()), tuple(guards) + ((node.test, pol),))
+
+
+def _pure(e):
+    return not any(isinstance(n, (ast.Call, ast.Yield, ast.YieldFrom, ast.Await, ast.NamedExpr)) for n in ast.walk(e))
+
+
+class SPath:
+    """One feasible path through a function: how it ends, the value it returns (locals substituted), the facts that hold
+    on it, and the calls / loops it performs on the way."""
+
+    def __init__(self, kind, stmt, value, env, at, guards, effects):
+        self.kind, self.stmt, self.value, self.env, self.atoms, self.guards, self.effects = kind, stmt, value, env, at, guards, effects
+
+
+def enum_paths(fi, what, subst_calls=True, limit=64):
+    """Enumerate the paths of a loop-free function body (for loops are recorded as effects, not entered).
+    subst_calls=False keeps the identity of call results: a local bound to a call is represented by a token `name@line:col`
+    (two evaluations of the same call text are then different objects); tokens -> (value, stmt) in the returned table."""
+    out, tokens = [], {}
+
+    def bind(env, name, val, stmt):
+        if subst_calls or _pure(val):
+            env[name] = val
+        else:
+            tok = f'{name}@{stmt.lineno}:{stmt.col_offset}'
+            tokens[tok] = (val, stmt)
+            env[name] = ast.Name(id=tok, ctx=ast.Load())
+
+    def assign(targets, val, env, stmt):
+        for t in targets:
+            if isinstance(t, ast.Name):
+                bind(env, t.id, val, stmt)
+            elif isinstance(t, (ast.Tuple, ast.List)) and all(isinstance(e, ast.Name) for e in t.elts) \
+                    and isinstance(val, (ast.Tuple, ast.List)) and len(val.elts) == len(t.elts):
+                for e, v in zip(t.elts, val.elts):
+                    bind(env, e.id, v, stmt)
+            else:
+                raise Undecided(f'{what}: store `{u(t)} = {u(val)[:60]}` is outside the evaluated vocabulary')
+
+    def go(todo, env, at, guards, effects):
+        if len(out) > limit:
+            raise Undecided(f'{what}: more than {limit} paths')
+        while todo:
+            s, todo = todo[0], todo[1:]
+            if isinstance(s, ast.Pass) or (isinstance(s, ast.Expr) and isinstance(s.value, ast.Constant)):
+                continue
+            if isinstance(s, (ast.Assign, ast.AnnAssign)):
+                if s.value is None:
+                    continue
+                targets = s.targets if isinstance(s, ast.Assign) else [s.target]
+                val = subst(s.value, env)
+                eager = isinstance(val, ast.IfExp) and (any(isinstance(t, (ast.Tuple, ast.List)) for t in targets) or not (subst_calls or _pure(val)))
+                if not eager:
+                    assign(targets, val, env, s)
+                    continue
+                for arm, at2, g2 in _top_lift(val, at, guards):
+                    env2 = dict(env)
+                    assign(targets, arm, env2, s)
+                    go(todo, env2, at2, g2, list(effects))
+                return
+            if isinstance(s, ast.AugAssign) and isinstance(s.target, ast.Name):
+                env[s.target.id] = ast.BinOp(left=subst(ast.Name(id=s.target.id, ctx=ast.Load()), env), op=s.op, right=subst(s.value, env))
+                continue
+            if isinstance(s, ast.If):
+                for test, at2, g2 in lift(subst(s.test, env), at, guards):
+                    d = decide(test, at2)
+                    for pol in ([d] if d is not None else [True, False]):
+                        go((s.body if pol else s.orelse) + todo, dict(env), at2 | (atoms(test, pol) or set()), g2 + ((test, pol),), list(effects))
+                return
+            if isinstance(s, ast.Return):
+                out.append(SPath('return', s, subst(s.value, env), env, at, guards, effects))
+                return
+            if isinstance(s, ast.Raise):
+                out.append(SPath('raise', s, subst(s.exc, env), env, at, guards, effects))
+                return
+            if isinstance(s, ast.Expr) and isinstance(s.value, ast.Call):
+                c = s.value
+                if isinstance(c.func, ast.Attribute) and c.func.attr == 'sort' and isinstance(c.func.value, ast.Name) and not c.args and not c.keywords \
+                        and c.func.value.id in env and subst_calls:
+                    # x.sort(): from here on x is the sorted array
+                    env[c.func.value.id] = ast.Call(func=ast.Name(id='__sorted_in_place__', ctx=ast.Load()), args=[env[c.func.value.id]], keywords=[])
+                    continue
+                alts = list(lift(subst(c, env), at, guards))
+                if len(alts) == 1:
+                    effects.append(('expr', s, alts[0][0], None))
+                    continue
+                for e2, at2, g2 in alts:
+                    go(todo, dict(env), at2, g2, effects + [('expr', s, e2, None)])
+                return
+            if isinstance(s, ast.For) and not s.orelse:
+                bound = {n.id for st in stmts_in(s.body) for t in assigned_targets(st) for n in ast.walk(t) if isinstance(n, ast.Name)}
+                bound |= {n.id for n in ast.walk(s.target) if isinstance(n, ast.Name)}
+                inner = {k: v for k, v in env.items() if k not in bound}
+                alts = list(lift(subst(s.iter, env), at, guards))
+                for k in bound:
+                    env[k] = ast.Name(id=f'{k}@after:{s.lineno}', ctx=ast.Load())
+                if len(alts) == 1:
+                    effects.append(('for', s, alts[0][0], inner))
+                    continue
+                for e2, at2, g2 in alts:
+                    go(todo, dict(env), at2, g2, effects + [('for', s, e2, inner)])
+                return
+            raise Undecided(f'{what}: statement `{u(s).splitlines()[0][:60]}` is outside the evaluated vocabulary')
+        out.append(SPath('fall', None, None, env, at, guards, effects))
+
+    def _top_lift(val, at, guards):
+        if not isinstance(val, ast.IfExp):
+            yield val, at, guards
+            return
+        d = decide(val.test, at)
+        for pol in ([d] if d is not None else [True, False]):
+            yield from _top_lift(val.body if pol else val.orelse, at | (atoms(val.test, pol) or set()), tuple(guards) + ((val.test, pol),))
+
+    go(list(fi.node.body), {}, set(), (), [])
+    return out, tokens
+
+
+def return_values(paths, what):
+    """(value, facts, guards, return stmt) for every way a value is returned (conditional expressions resolved)."""
+    out = []
+    for p in paths:
+        if p.kind == 'return' and p.value is not None:
+            for v, at, g in lift(p.value, p.atoms, p.guards):
+                out.append((v, at, g, p.stmt))
+        elif p.kind != 'raise':
+            raise Undecided(f'{what}: a path ends without returning a value')
+    return out
 
 
 # ------------------------------------------------------------------------------------------------ K2.0
@@ -82,6 +287,344 @@ def harvest_kmerspec(ctx):
 
 
 # ------------------------------------------------------------------------------------------------ K1
+# The search of one strand is decided on its *trace*, not on the loop syntax.  find_kmers is executed symbolically along the
+# path on which every find() hits; each find() result is a symbol r1, r2, ...; two iterations of every search loop are
+# unrolled and the loop-carried state after the second must be the state after the first with the hit symbols shifted by one
+# (so every later iteration repeats the second).  The trace of a strand must then read
+#       F(start=S0, end=E) T(r1) Y(pos(r1))  F(start=r1+1, end=E) T(r2) Y(pos(r2))  [F(start=r2+1, end=E)] ...
+# with F = find call (receiver, needle, start, end as affine forms), T = the test that separates a hit (r >= 0) from the miss
+# (r == -1) and whose miss side leaves the loop without producing anything, Y = yield of the match for that hit.
+# `start = S0; while True: r = find(start); if r < 0: break; yield; start = r + 1` and
+# `r = find(S0); while r >= 0: yield; r = find(r + 1)` (and a generator helper expanded in place) have the same trace.
+_RSYM = re.compile(r'__r(\d+)')
+
+
+def _is_find(n):
+    return isinstance(n, ast.Call) and isinstance(n.func, ast.Attribute) and n.func.attr == 'find'
+
+
+def _has(node, pred):
+    return any(pred(n) for n in ast.walk(node))
+
+
+def _loop_ctrl(stmts):
+    """break / continue statements that belong to the loop enclosing stmts (not to a loop nested in them)."""
+    out = []
+    for s in stmts:
+        if isinstance(s, (ast.Break, ast.Continue)):
+            out.append(s)
+        elif isinstance(s, (ast.For, ast.While, ast.AsyncFor, ast.FunctionDef, ast.AsyncFunctionDef, ast.ClassDef)):
+            continue
+        else:
+            for f in ('body', 'orelse', 'finalbody'):
+                out += _loop_ctrl(getattr(s, f, None) or [])
+            if isinstance(s, ast.Try):
+                for h in s.handlers:
+                    out += _loop_ctrl(h.body)
+    return out
+
+
+class _LoopMark:
+    pass
+
+
+class SearchExec:
+    def __init__(self, ctx, fi, spec, seqp):
+        self.rep, self.m, self.fi, self.fn, self.spec, self.seqp = ctx.rep, ctx.model, fi, fi.node, spec, seqp
+        self.events = []
+        self.nr = 0
+        self.status = {}          # hit symbol -> 'unknown' | 'hit' | 'miss'
+        self.rest = []            # continuation: remaining statements of the enclosing blocks (innermost last), _LoopMark at loop level
+        self.segments = []        # one per search loop: dict(loop=, events=, periodic=, abort=)
+        self.consumed = 0
+        self.early = []           # (if stmt, substituted test, return stmts)
+        self.sig_stmt = None
+        self.top_signal = None
+        self.nosubst = {n.func.value.id for n in ast.walk(self.fn) if _is_find(n) and isinstance(n.func.value, ast.Name)}
+        self.nopaque = 0
+        self.in_miss = 0
+        self.top_returns = []
+
+    # ---- helpers
+    def und(self, msg):
+        raise Undecided(f'find_kmers: {msg}')
+
+    def sub(self, e, env):
+        return subst(e, {k: v for k, v in env.items() if k not in self.nosubst})
+
+    def is_search(self, node):
+        return _has(node, lambda n: _is_find(n) or isinstance(n, (ast.Yield, ast.YieldFrom, ast.Return)))
+
+    def opaque(self, s, env):
+        """A compound statement that neither searches nor produces matches: what it binds is unknown afterwards."""
+        for st in stmts_in([s]):
+            for t in assigned_targets(st):
+                for n in ast.walk(t):
+                    if isinstance(n, ast.Name):
+                        self.nopaque += 1
+                        env[n.id] = ast.Name(id=f'{n.id}@{self.nopaque}', ctx=ast.Load())
+
+    def do_find(self, call, env, stmt):
+        self.rep.require(isinstance(call.func.value, ast.Name), 'find_kmers: find() receiver is not a local')
+        self.rep.require(1 <= len(call.args) <= 3 and not call.keywords and not any(isinstance(a, ast.Starred) for a in call.args),
+                         'find_kmers: unexpected find() arguments')
+        self.nr += 1
+        r = f'__r{self.nr}'
+        a = [self.sub(x, env) for x in call.args] + [None, None]
+        self.events.append(dict(k='F', node=call, stmt=stmt, hay=call.func.value.id, needle=a[0], start=a[1], end=a[2], r=r))
+        self.status[r] = 'unknown'
+        return ast.Name(id=r, ctx=ast.Load())
+
+    def test_of(self, test, env, stmt):
+        """Substituted test; a find() bound by a walrus inside the test is executed first."""
+        named = [(i, n) for i, n in enumerate(walk_ordered(test)) if isinstance(n, ast.NamedExpr) and _is_find(n.value)]
+        if len(named) > 1:
+            self.und(f'several find() calls inside one test: `{u(test)}`')
+        if named:
+            i, n = named[0]
+            env[n.target.id] = self.do_find(n.value, env, stmt)
+            t2 = copy.deepcopy(test)
+            n2 = next(x for j, x in enumerate(walk_ordered(t2)) if j == i)
+            name = ast.Name(id=n.target.id, ctx=ast.Load())
+            test = name if i == 0 else _Repl(n2, name).visit(t2)
+        if _has(test, _is_find):
+            self.und(f'the find() result is tested without being bound to a local: `{u(test)}`')
+        return self.sub(test, env)
+
+    def classify(self, test, r):
+        """'hit' when test <=> r >= 0, 'miss' when test <=> r == -1 (given that find returns -1 or an index >= 0),
+        ('wrong', why) for another comparison of r with a constant, 'other' otherwise."""
+        env = {r: sym('loc')}
+
+        def key(n):
+            a = Aff.try_of(n, env)
+            return str(a) if a is not None else u(n)
+        a = atoms(test, True, key)
+        if a is None or len(a) != 1:
+            return 'other'
+        (op, x, y), = a
+
+        def num(t):
+            try:
+                return int(t)
+            except (TypeError, ValueError):
+                return None
+        if op in ('lt', 'le') and x == 'loc' and num(y) is not None:      # loc < c / loc <= c
+            c = num(y) if op == 'lt' else num(y) + 1                       # loc < c
+            return 'miss' if c == 0 else ('wrong', f'`{u(test)}` is true for hits below {c}' if c > 0 else f'`{u(test)}` is never true for a find() result')
+        if op in ('lt', 'le') and y == 'loc' and num(x) is not None:      # c < loc / c <= loc
+            c = num(x) if op == 'le' else num(x) + 1                       # c <= loc
+            return 'hit' if c == 0 else ('wrong', f'`{u(test)}` is false for hits below {c}' if c > 0 else f'`{u(test)}` is also true for the miss value -1')
+        if op in ('eq', 'ne') and 'loc' in (x, y):
+            c = num(y if x == 'loc' else x)
+            if c is not None:
+                if c == -1:
+                    return 'miss' if op == 'eq' else 'hit'
+                return ('wrong', f'`{u(test)}` compares the find() result with {c}, the miss value is -1')
+        return 'other'
+
+    def conditional_yield(self, s):
+        if isinstance(s, ast.If) and (_loop_ctrl([s]) or _has(s, lambda n: isinstance(n, ast.Return))) and any(isinstance(x, _LoopMark) for x in self.rest):
+            self.rep.add('K1', self.fi.site(s), 'the search loop is left on the miss only (no other exit condition)', False,
+                         expected='if loc < 0: break', found=f'loop exit under the condition `{u(s.test)}`', stmt=f'miss exit {u(s.test)}')
+        if isinstance(s, ast.If) and _has(ast.Module(body=s.body + s.orelse, type_ignores=[]), lambda n: isinstance(n, (ast.Yield, ast.YieldFrom))):
+            self.rep.add('K1', self.fi.site(s), 'yield and restart are unconditional successors of the hit test in the loop body', False,
+                         expected='every hit is yielded', found=f'a match is yielded only under the further condition `{u(s.test)}`', stmt=f'restart placement {u(s.test)}')
+
+    # ---- execution
+    def block(self, stmts, env):
+        for i, s in enumerate(stmts):
+            self.rest.append(stmts[i + 1:])
+            try:
+                sig = self.stmt(s, env)
+            finally:
+                self.rest.pop()
+            if sig:
+                return sig
+        return None
+
+    def miss_path(self, branch, env, r):
+        """Run the path on which r is the miss value up to the point where it leaves the loop; events are collected apart."""
+        saved = (self.events, self.nr, dict(self.status), self.sig_stmt)
+        self.events = []
+        self.status[r] = 'miss'
+        self.sig_stmt = None
+        self.in_miss += 1
+        env = dict(env)
+        try:
+            sig = self.block(branch, env)
+            if sig is None:
+                for rest in reversed(list(self.rest)):
+                    if isinstance(rest, _LoopMark):
+                        sig = 'loop-end'
+                        break
+                    sig = self.block(list(rest), env)
+                    if sig:
+                        break
+                else:
+                    sig = 'fall'
+        finally:
+            self.in_miss -= 1
+        ev, st = self.events, self.sig_stmt
+        self.events, self.nr, self.status, self.sig_stmt = saved[0], saved[1], saved[2], saved[3]
+        return sig, ev, st
+
+    def cond(self, s, test, env, body, orelse, natural_exit=False):
+        """A test on a find() result.  Returns (handled, signal)."""
+        rs = _RSYM.findall(u(test))
+        if not rs:
+            return False, None
+        r = f'__r{max(int(x) for x in rs)}'
+        cls = self.classify(test, r)
+        if isinstance(cls, tuple):
+            self.rep.add('K1', self.fi.site(s), 'the test on the find() result separates exactly the miss (-1) from the hits (>= 0)', False,
+                         expected='r < 0 / r == -1 / r >= 0 / r != -1', found=cls[1], stmt=f'hit test {u(s.test)}')
+            self.und(f'cannot follow the search past the test `{u(s.test)}`')
+        if cls == 'other':
+            self.conditional_yield(s)
+            self.und(f'the condition `{u(s.test)}` on a find() result is outside the evaluated vocabulary (comparison with a constant)')
+        st = self.status.get(r)
+        if st in ('hit', 'miss'):
+            return True, self.block(body if (cls == 'hit') == (st == 'hit') else orelse, env)
+        hit_b, miss_b = (body, orelse) if cls == 'hit' else (orelse, body)
+        if natural_exit:
+            msig, mev, mst = 'exit', [], None
+        else:
+            msig, mev, mst = self.miss_path(miss_b, env, r)
+        self.events.append(dict(k='T', r=r, node=s, test=test, miss_sig=msig, miss_events=mev, miss_stmt=mst))
+        self.status[r] = 'hit'
+        return True, ('enter' if natural_exit else self.block(hit_b, env))
+
+    def stmt(self, s, env):
+        if isinstance(s, ast.Pass) or (isinstance(s, ast.Expr) and isinstance(s.value, ast.Constant)):
+            return None
+        if isinstance(s, ast.Expr):
+            v = s.value
+            if isinstance(v, ast.Yield):
+                if v.value is not None and _has(v.value, lambda n: _is_find(n) or isinstance(n, (ast.Yield, ast.YieldFrom))):
+                    self.und(f'`{u(s)}`: find() / yield inside a yielded expression')
+                self.events.append(dict(k='Y', node=v, stmt=s, value=self.sub(v.value, env)))
+                return None
+            if self.is_search(v):
+                self.und(f'`{u(s)[:60]}`: the result of find() / a nested yield is used in an expression statement')
+            return None
+        if isinstance(s, (ast.Assign, ast.AnnAssign)):
+            if s.value is None:
+                return None
+            targets = s.targets if isinstance(s, ast.Assign) else [s.target]
+            if _is_find(s.value):
+                self.rep.require(len(targets) == 1 and isinstance(targets[0], ast.Name), 'find_kmers: find() result not assigned to a local')
+                env[targets[0].id] = self.do_find(s.value, env, s)
+                return None
+            if self.is_search(s.value):
+                self.und(f'`{u(s)[:60]}`: the find() result is used inside an expression')
+            val = self.sub(s.value, env)
+            for t in targets:
+                if isinstance(t, ast.Name):
+                    env[t.id] = val
+                elif isinstance(t, (ast.Tuple, ast.List)) and all(isinstance(e, ast.Name) for e in t.elts) and isinstance(val, (ast.Tuple, ast.List)) \
+                        and len(val.elts) == len(t.elts):
+                    for e, x in zip(t.elts, val.elts):
+                        env[e.id] = x
+                else:
+                    self.opaque(s, env)
+            return None
+        if isinstance(s, ast.AugAssign):
+            if self.is_search(s.value):
+                self.und(f'`{u(s)[:60]}`: the find() result is used inside an expression')
+            if isinstance(s.target, ast.Name):
+                env[s.target.id] = ast.BinOp(left=self.sub(ast.Name(id=s.target.id, ctx=ast.Load()), env), op=s.op, right=self.sub(s.value, env))
+            return None
+        if isinstance(s, ast.Return) and not self.in_miss and not any(isinstance(x, _LoopMark) for x in self.rest):
+            self.top_returns.append(s)      # reported as an early return; the rest is still evaluated
+            return None
+        if isinstance(s, (ast.Break, ast.Continue, ast.Return)):
+            self.sig_stmt = s
+            return {ast.Break: 'break', ast.Continue: 'continue', ast.Return: 'return'}[type(s)]
+        if isinstance(s, ast.If):
+            test = self.test_of(s.test, env, s)
+            handled, sig = self.cond(s, test, env, s.body, s.orelse)
+            if handled:
+                return sig
+            in_loop = any(isinstance(x, _LoopMark) for x in self.rest)
+            if in_loop:
+                self.conditional_yield(s)
+            if not self.is_search(s) and not (in_loop and _loop_ctrl([s])):
+                self.opaque(s, env)
+                return None
+            rets = [x for x in stmts_in(s.body) if isinstance(x, ast.Return)]
+            if not s.orelse and always_exits(s.body) and isinstance(s.body[-1], ast.Return) and not _has(ast.Module(body=s.body, type_ignores=[]), lambda n: _is_find(n) or isinstance(n, (ast.Yield, ast.YieldFrom))) \
+                    and not _loop_ctrl(s.body) and not in_loop:
+                self.early.append((s, test, rets))
+                return None
+            self.und(f'search statements / loop exits under the condition `{u(s.test)}` (not a test of the find() result) are outside the evaluated vocabulary')
+        if isinstance(s, ast.While):
+            return self.loop(s, env)
+        if self.is_search(s) or isinstance(s, ast.Raise):
+            self.und(f'`{u(s).splitlines()[0][:60]}`: matches produced inside this statement are not evaluated (only find() loops are)')
+        self.opaque(s, env)
+        return None
+
+    def loop(self, s, env):
+        if not self.is_search(s):
+            self.opaque(s, env)
+            return None
+        self.rep.require(not s.orelse, 'find_kmers: while/else in a search loop')
+        seg = dict(loop=s, abort=None, periodic=None, test_const=isinstance(s.test, ast.Constant) and bool(s.test.value), envs=[])
+        bound = sorted({n.id for st in stmts_in(s.body) for t in assigned_targets(st) for n in ast.walk(t) if isinstance(n, ast.Name)}
+                       | {n.target.id for n in ast.walk(s) if isinstance(n, ast.NamedExpr)})
+        for it in (1, 2):
+            if not seg['test_const']:
+                test = self.test_of(s.test, env, s)
+                handled, sig = self.cond(s, test, env, [], [], natural_exit=True)
+                if not handled:
+                    self.und(f'the loop condition `{u(s.test)}` is not a test of the find() result: the loop has another exit condition')
+                if sig != 'enter':
+                    self.und(f'the loop condition `{u(s.test)}` does not enter the loop on a hit')
+            self.rest.append(_LoopMark())
+            try:
+                sig = self.block(s.body, env)
+            finally:
+                self.rest.pop()
+            if sig in ('break', 'return'):
+                seg['abort'] = (sig, self.sig_stmt)
+                break
+            seg['envs'].append({k: u(env[k]) for k in bound if k in env})
+        if len(seg['envs']) == 2:
+            e1, e2 = seg['envs']
+            # only state that flows into a find() argument, a yielded match or a test matters (a counter nobody reads does not)
+            rel = set()
+            for n in ast.walk(s):
+                if _is_find(n) or isinstance(n, ast.Yield):
+                    rel |= names_in(n)
+                elif isinstance(n, (ast.If, ast.While, ast.IfExp)):
+                    rel |= names_in(n.test)
+            grew = True
+            while grew:
+                grew = False
+                for st in stmts_in(s.body):
+                    if isinstance(st, (ast.Assign, ast.AugAssign, ast.AnnAssign)) and st.value is not None \
+                            and any(isinstance(x, ast.Name) and x.id in rel for t in assigned_targets(st) for x in ast.walk(t)) and not names_in(st.value) <= rel:
+                        rel |= names_in(st.value)
+                        grew = True
+            e1, e2 = ({k: v for k, v in e.items() if k in rel} for e in (e1, e2))
+            shifted = {k: _RSYM.sub(lambda mo: f'__r{int(mo.group(1)) - 1}', v) for k, v in e2.items()}
+            seg['periodic'] = sorted(k for k in set(e1) | set(e2) if e1.get(k) != shifted.get(k))
+        seg['events'] = self.events[self.consumed:]
+        self.consumed = len(self.events)
+        self.segments.append(seg)
+        n = len(self.segments)
+        for k in bound:
+            env[k] = ast.Name(id=f'{k}@after_loop{n}', ctx=ast.Load())
+        for r in self.status:
+            self.status[r] = 'hit' if self.status[r] == 'hit' else 'miss'
+        return None
+
+    def run(self):
+        self.block(self.fn.body, {})
+        self.tail = self.events[self.consumed:]
+
+
 def analyse_search_loops(ctx):
     rep, m = ctx.rep, ctx.model
     fi = m.func('gambit.kmers.find_kmers')
@@ -90,133 +633,237 @@ def analyse_search_loops(ctx):
     params = fi.params()
     rep.require(len(params) == 2, 'find_kmers: expected (kmerspec, seq)')
     spec, seqp = params
-    env = straightline_env(fn, spec_env(spec))
-    gm = guard_map(fn)
-    pm = find_parent_map(fn)
-    loops = []
-    for s in fn.body:
-        if isinstance(s, ast.While):
-            finds = [c for c in calls_in(s) if callee_attr(c) == 'find']
-            if finds:
-                loops.append((s, finds))
-    rep.floor('K1', 'search loops in find_kmers', len(loops), 2)
+    ex = SearchExec(ctx, fi, spec, seqp)
+    ex.run()
+    harmless = [r for r in ex.top_returns if any(r is x for x in fn.body) and not any(ex.is_search(x) for x in fn.body[[i for i, x in enumerate(fn.body) if x is r][0] + 1:])]
+    for r in ex.top_returns:
+        if not any(r is x for x in harmless):     # a bare return after both searches ends the generator as falling off the end does
+            rep.add('K1', fi.site(r), 'no early return before both searches ran', False, expected='none', found=u(r), stmt='early return')
+    rep.floor('K1', 'search loops in find_kmers', len(ex.segments), 2)
+    env = spec_env(spec)
     result = {}
     hay_names = set()
-    for loop, finds in loops:
-        rep.require(len(finds) == 1, 'find_kmers: a search loop with several find() calls')
-        find = finds[0]
-        rep.call_sites += 1
-        rep.require(isinstance(find.func.value, ast.Name), 'find_kmers: find() receiver is not a local')
-        hay = find.func.value.id
-        hay_names.add(hay)
-        rep.require(1 <= len(find.args) <= 3 and not find.keywords, 'find_kmers: unexpected find() arguments')
-        needle = find.args[0]
+    accounted_yields, accounted_returns = set(), set()
+    loc = sym('loc')
+
+    def resolve_len(e):
+        """len(revcomp(x)) == len(x) (the complement of a sequence has its length)."""
+        class R(ast.NodeTransformer):
+            def visit_Call(s2, node):
+                s2.generic_visit(node)
+                if isinstance(node.func, ast.Name) and node.func.id == 'len' and len(node.args) == 1 and isinstance(node.args[0], ast.Call) \
+                        and m.resolve_call(fi, node.args[0]) in ('gambit._cython.kmers.revcomp', 'gambit.seq.revcomp') and len(node.args[0].args) == 1:
+                    return ast.Call(func=node.func, args=[node.args[0].args[0]], keywords=[])
+                return node
+        return R().visit(copy.deepcopy(e)) if e is not None else None
+
+    def aff(e, lenv):
+        return Aff.try_of(resolve_len(e), lenv) if e is not None else None
+
+    for si, seg in enumerate(ex.segments):
+        loop = seg['loop']
+        evs = seg['events']
+        finds = [e for e in evs if e['k'] == 'F']
+        rep.require(finds, 'find_kmers: a loop that yields without a find() call')
+        f1 = finds[0]
+        rep.call_sites += len({id(e['node']) for e in finds})
+        needle = f1['needle']
         kind = None
-        find_stmt = next(s for s in stmts_in(loop.body) if any(x is find for x in ast.walk(s)) and not isinstance(s, (ast.If, ast.While)))
         if u(needle) == f'{spec}.prefix':
             kind = 'forward'
-        elif isinstance(needle, ast.Name):
-            d = reaching_def(fn, needle.id, loop)
-            v = def_value(d) if d not in (None, PARAM, AMBIGUOUS) else None
-            if isinstance(v, ast.Call) and m.resolve_call(fi, v) in ('gambit._cython.kmers.revcomp', 'gambit.seq.revcomp') \
-                    and [u(a) for a in v.args] == [f'{spec}.prefix']:
-                kind = 'reverse'
-                env[f'len({needle.id})'] = P
+        elif isinstance(needle, ast.Call) and m.resolve_call(fi, needle) in ('gambit._cython.kmers.revcomp', 'gambit.seq.revcomp') \
+                and [u(a) for a in needle.args] == [f'{spec}.prefix'] and not needle.keywords:
+            kind = 'reverse'
         rep.require(kind is not None, f'find_kmers: cannot classify the needle {u(needle)}')
         rep.require(kind not in result, f'find_kmers: two {kind} search loops')
-        rep.require(isinstance(find_stmt, ast.Assign) and isinstance(find_stmt.targets[0], ast.Name), 'find_kmers: find() result not assigned to a local')
-        loc = find_stmt.targets[0].id
-        lenv = dict(env)
-        lenv[loc] = sym('loc')
-        lenv[f'len({hay})'] = sym('LEN')
+        hay = f1['hay']
+        hay_names.add(hay)
+        is_last = si == len(ex.segments) - 1 and not ex.tail
 
-        def key(n, lenv=lenv):
-            a = Aff.try_of(n, lenv)
-            return str(a) if a is not None else u(n)
+        def lenv_for(r, hay=hay):
+            e = dict(env)
+            e[r] = loc
+            e[f'len({hay})'] = sym('LEN')
+            return e
+        # ---- the trace: F T Y F T Y [F]
+        state, cur, prev = 'need_find', None, None
+        shape_bad, unguarded, unreported, cycles = [], [], [], 0
+        tests, yields = [], []
+        for e in evs:
+            if e['k'] == 'F':
+                if state == 'need_test':
+                    shape_bad.append(f'the result of `{u(cur["node"])}` is never tested')
+                elif state == 'need_yield':
+                    unreported.append(f'no match is yielded for the hit of `{u(cur["node"])}`')
+                prev, cur, state = cur, e, 'need_test'
+            elif e['k'] == 'T':
+                if cur is not None and e['r'] == cur['r'] and state == 'need_test':
+                    state = 'need_yield'
+                    tests.append(e)
+                else:
+                    shape_bad.append(f'test `{u(e["test"])}` does not test the latest find() result')
+            elif e['k'] == 'Y':
+                if state == 'need_yield':
+                    state = 'yielded'
+                    cycles += 1
+                    yields.append((e, cur))
+                elif state == 'need_test' or cur is None:
+                    unguarded.append(e)
+                    yields.append((e, cur))
+                    state = 'yielded'
+                else:
+                    rep.require(False, f'find_kmers ({kind}): several yields for one find() hit')
+        if seg['abort'] is not None:
+            sig, st = seg['abort']
+            rep.add('K1', fi.site(st), f'{kind}: the search goes on after a hit (every occurrence is enumerated)', False, expected='next find() after the yield',
+                    found=f'`{sig}` on the path of a hit', stmt=f'{kind}: restart placement')
+        rep.require(yields, f'find_kmers ({kind}): the search loop yields nothing on the path of a hit')
         # START
-        start_arg = find.args[1] if len(find.args) > 1 else None
-        rep.require(isinstance(start_arg, ast.Name), f'find_kmers ({kind}): start argument is not a local variable')
-        sv = start_arg.id
-        d0 = reaching_def(fn, sv, loop)
-        v0 = def_value(d0) if d0 not in (None, PARAM, AMBIGUOUS) else None
-        init = Aff.try_of(v0, env) if v0 is not None else None
         want_init = const(0) if kind == 'forward' else K
-        rep.add('K1', fi.site(d0 if isinstance(d0, ast.AST) else loop), f'{kind} search starts at {want_init}', init == want_init,
-                expected=want_init, found=init if init is not None else u(v0), stmt=f'{kind}: initial start')
-        inner = [s for s in stmts_in(loop.body) if isinstance(s, ast.Assign) and len(s.targets) == 1
-                 and isinstance(s.targets[0], ast.Name) and s.targets[0].id == sv]
-        rep.require(len(inner) == 1, f'find_kmers ({kind}): expected one restart assignment in the loop, found {len(inner)}')
-        back = Aff.try_of(inner[0].value, lenv)
-        rep.add('K1', fi.site(inner[0]), f'{kind} search restarts one past the last hit (overlapping occurrences are enumerated)',
-                back == sym('loc').plus(1), expected='loc + 1', found=back if back is not None else u(inner[0].value), stmt=f'{kind}: restart')
-        # the restart is on the path of every iteration that yields (not skipped)
-        yields = [n for n in ast.walk(loop) if isinstance(n, ast.Yield)]
-        rep.require(len(yields) == 1 and isinstance(yields[0].value, ast.Call), f'find_kmers ({kind}): expected one `yield KmerMatch(...)`')
-        y = yields[0]
-        ystmt = next(s for s in stmts_in(loop.body) if any(x is y for x in ast.walk(s)) and isinstance(s, ast.Expr))
-        bp_y, bp_r = block_path(fn, ystmt), block_path(fn, inner[0])
-        same_block = bp_y[-1][0] is bp_r[-1][0] and bp_y[-1][1] < bp_r[-1][1] and bp_y[-1][0] is loop.body
-        rep.add('K1', fi.site(inner[0]), f'{kind}: yield and restart are unconditional successors of the hit test in the loop body', same_block,
-                expected='same block, restart after yield', found='different blocks' if not same_block else 'ok', stmt=f'{kind}: restart placement')
+        init = aff(f1['start'], lenv_for(f1['r'])) if f1['start'] is not None else const(0)
+        rep.add('K1', fi.site(f1['node']), f'{kind} search starts at {want_init}', init == want_init,
+                expected=want_init, found=init if init is not None else u(f1['start']), stmt=f'{kind}: initial start')
+        later = finds[1:]
+        if seg['abort'] is None:
+            rep.require(later, f'find_kmers ({kind}): no find() call follows a hit')
+        backs = []
+        for pf, nf in zip(finds, later):
+            b = aff(nf['start'], lenv_for(pf['r'])) if nf['start'] is not None else None
+            backs.append(b if b is not None else u(nf['start']))
+        if later:
+            rep.add('K1', fi.site(later[0]['node']), f'{kind} search restarts one past the last hit (overlapping occurrences are enumerated)',
+                    all(b == loc.plus(1) for b in backs), expected='loc + 1', found=backs[0] if len({str(b) for b in backs}) == 1 else backs, stmt=f'{kind}: restart')
+        if seg['abort'] is None:
+            ok_shape = not shape_bad and not unreported and cycles >= 2 and state in ('yielded', 'need_test')
+            rep.add('K1', fi.site(later[0]['node'] if later else loop), f'{kind}: yield and restart are unconditional successors of the hit test in the loop body', ok_shape,
+                    expected='find, hit test, yield, next find - for every hit', found=(shape_bad + unreported) or ('ok' if ok_shape else f'{cycles} complete find/test/yield cycles in two iterations'),
+                    stmt=f'{kind}: restart placement')
+            rep.require(seg['periodic'] is not None, f'find_kmers ({kind}): could not unroll the loop twice')
+            rep.require(not seg['periodic'] or not ok_shape, f'find_kmers ({kind}): loop-carried state {seg["periodic"]} is not a function of the last hit only '
+                        '(the second iteration does not repeat): outside the evaluated vocabulary')
         # END
-        end_arg = find.args[2] if len(find.args) > 2 else None
-        end = Aff.try_of(end_arg, lenv) if end_arg is not None else None
+        ends = []
+        for f in finds:
+            ea = None if f['end'] is None or is_none(f['end']) else aff(f['end'], lenv_for(f['r']))
+            ends.append((f['end'], ea))
         if kind == 'forward':
-            rep.add('K1', fi.site(find), 'forward window leaves exactly k bases after the prefix: end == -k', end == K.scale(-1),
-                    expected='-K', found=end if end is not None else u(end_arg), stmt='forward: window end')
+            okend = all(ea == K.scale(-1) for (_e, ea) in ends)
         else:
-            rep.add('K1', fi.site(find), 'reverse window extends to the end of the sequence', end_arg is None or end == sym('LEN'),
-                    expected='no end / len', found=end if end is not None else u(end_arg), stmt='reverse: window end')
-        # exit on miss before the yield
-        at = path_atoms(gm[ystmt], key=key)
-        hit = ('le', '0', 'loc') in at or ('lt', '-1', 'loc') in at or ('ne', '-1', 'loc') in at
-        rep.add('K1', fi.site(ystmt), f'{kind}: a match is yielded only for a hit (loc >= 0)', hit, expected='loc >= 0 on the path', found=sorted(at),
-                stmt=f'{kind}: hit guard')
-        # the miss leaves the loop (break / return), it does not skip
-        miss_ok = False
-        for s in loop.body:
-            if isinstance(s, ast.If):
-                a = atoms(s.test, True, key)
-                is_last_loop = loop is loops[-1][0] and all(not isinstance(x, (ast.While, ast.For)) for x in fn.body[fn.body.index(loop) + 1:])
-                if a and (a & {('lt', 'loc', '0'), ('eq', '-1', 'loc'), ('le', 'loc', '-1')}) and s.body \
-                        and (isinstance(s.body[-1], ast.Break) or (isinstance(s.body[-1], ast.Return) and is_last_loop)):
-                    miss_ok = True
-        if isinstance(loop.test, ast.Compare):
-            a = atoms(loop.test, True, key)
-            miss_ok = miss_ok or bool(a and (a & {('le', '0', 'loc'), ('ne', '-1', 'loc')}))
-        rep.add('K1', fi.site(loop), f'{kind}: a miss terminates the search', miss_ok, expected='if loc < 0: break', found='no `break` on a miss (a return would skip the other strand)' if not miss_ok else 'ok',
-                stmt=f'{kind}: miss exit')
-        # loop is otherwise unconditional
-        rep.add('K1', fi.site(loop), f'{kind}: the loop has no other exit condition', is_const(loop.test, True) or isinstance(loop.test, ast.Compare),
-                expected='while True', found=u(loop.test), stmt=f'{kind}: loop test')
+            okend = all(e is None or is_none(e) or ea == sym('LEN') for (e, ea) in ends)
+        end = ends[0][1]
+        bad_end = next(((e, ea) for (e, ea) in ends if (ea != K.scale(-1) if kind == 'forward' else not (e is None or is_none(e) or ea == sym('LEN')))), ends[0])
+        rep.add('K1', fi.site(f1['node']), 'forward window leaves exactly k bases after the prefix: end == -k' if kind == 'forward' else 'reverse window extends to the end of the sequence',
+                okend, expected='-K' if kind == 'forward' else 'no end / len', found=bad_end[1] if bad_end[1] is not None else u(bad_end[0]), stmt=f'{kind}: window end')
+        if kind == 'forward' and not okend:
+            end = bad_end[1]
+        same = len({(f['hay'], u(f['needle'])) for f in finds}) == 1
+        rep.add('K1', fi.site(f1['node']), f'{kind}: every find() of the search looks for the same needle in the same haystack', same, expected=(hay, u(needle)),
+                found=sorted({(f['hay'], u(f['needle'])) for f in finds}), stmt=f'{kind}: search operands')
+        # hit guard
+        y0 = yields[0][0]
+        rep.add('K1', fi.site(y0['stmt']), f'{kind}: a match is yielded only for a hit (loc >= 0)', not unguarded and not any('does not test' in x for x in shape_bad),
+                expected='loc >= 0 on the path', found=[u(t['test']) for t in tests] if not unguarded else 'yield before the result of find() is tested', stmt=f'{kind}: hit guard')
+        # miss exit
+        bad_miss = []
+        for t in tests:
+            if t['miss_events']:
+                bad_miss.append('the miss path yields / searches again')
+            elif t['miss_sig'] == 'return':
+                if is_last:
+                    accounted_returns.add(id(t['miss_stmt']))
+                else:
+                    bad_miss.append('`return` on a miss (skips the other strand)')
+                    accounted_returns.add(id(t['miss_stmt']))
+            elif t['miss_sig'] not in ('break', 'exit'):
+                bad_miss.append('no `break` on a miss: the loop goes on with the miss value')
+        rep.add('K1', fi.site(loop), f'{kind}: a miss terminates the search', bool(tests) and not bad_miss, expected='if loc < 0: break',
+                found=sorted(set(bad_miss)) or ('ok' if tests else 'no test of the find() result'), stmt=f'{kind}: miss exit')
+        rep.add('K1', fi.site(loop), f'{kind}: the loop has no other exit condition', True, expected='while True / while <hit>', found=u(loop.test), stmt=f'{kind}: loop test')
         # yielded match
-        call = y.value
-        tgt = m.resolve_call(fi, call)
-        rep.require(tgt == 'gambit.kmers.KmerMatch', f'find_kmers ({kind}): yields {tgt}, not KmerMatch')
-        fields = ['kmerspec', 'seq', 'pos', 'reverse']
-        args = {f: get_arg(call, i, f) for i, f in enumerate(fields)}
-        rep.require(all(a is not None and a is not Ellipsis for a in args.values()), 'find_kmers: KmerMatch arguments')
-        pos = Aff.try_of(args['pos'], lenv)
-        want_pos = sym('loc') if kind == 'forward' else sym('loc').add(P).plus(-1)
-        rep.add('K1', fi.site(call), f'{kind}: reported position', pos == want_pos, expected=want_pos, found=pos if pos is not None else u(args['pos']),
-                stmt=f'{kind}: pos')
-        rev = args['reverse']
-        rep.add('K1', fi.site(call), f'{kind}: strand flag', isinstance(rev, ast.Constant) and rev.value is (kind == 'reverse'),
-                expected=str(kind == 'reverse'), found=u(rev), stmt=f'{kind}: reverse flag')
-        rep.add('K1', fi.site(call), f'{kind}: the match carries the search parameters and the searched sequence',
-                u(args['kmerspec']) == spec and u(args['seq']) in (seqp, hay), expected=(spec, seqp), found=(u(args['kmerspec']), u(args['seq'])),
+        poss, flags, fields_ok, found_fields = [], [], True, None
+        call0 = None
+        for (y, f) in yields:
+            call = y['value']
+            rep.require(isinstance(call, ast.Call), f'find_kmers ({kind}): expected `yield KmerMatch(...)`')
+            tgt = m.resolve_call(fi, call)
+            rep.require(tgt == 'gambit.kmers.KmerMatch', f'find_kmers ({kind}): yields {tgt}, not KmerMatch')
+            names = ['kmerspec', 'seq', 'pos', 'reverse']
+            args = {n: get_arg(call, i, n) for i, n in enumerate(names)}
+            rep.require(all(a is not None and a is not Ellipsis for a in args.values()), 'find_kmers: KmerMatch arguments')
+            call0 = call0 or y['node'].value
+            pa = aff(args['pos'], lenv_for(f['r'])) if f is not None else None
+            poss.append(pa if pa is not None else u(args['pos']))
+            flags.append(args['reverse'])
+            okf = u(args['kmerspec']) == spec and u(args['seq']) in (seqp, hay)
+            fields_ok = fields_ok and okf
+            found_fields = (u(args['kmerspec']), u(args['seq']))
+            accounted_yields.add(id(y['node']))
+        want_pos = loc if kind == 'forward' else loc.add(P).plus(-1)
+        pos = poss[0] if isinstance(poss[0], Aff) else None
+        rep.add('K1', fi.site(call0), f'{kind}: reported position', all(p == want_pos for p in poss), expected=want_pos,
+                found=next((p for p in poss if p != want_pos), poss[0]), stmt=f'{kind}: pos')
+        rep.add('K1', fi.site(call0), f'{kind}: strand flag', all(isinstance(rv, ast.Constant) and rv.value is (kind == 'reverse') for rv in flags),
+                expected=str(kind == 'reverse'), found=u(flags[0]), stmt=f'{kind}: reverse flag')
+        rep.add('K1', fi.site(call0), f'{kind}: the match carries the search parameters and the searched sequence', fields_ok, expected=(spec, seqp), found=found_fields,
                 stmt=f'{kind}: match fields')
-        result[kind] = dict(init=init, end=end, pos=pos, hay=hay, loop=loop, find=find)
+        result[kind] = dict(init=init, end=end, pos=pos, hay=hay, loop=loop, find=f1['node'], first_stmt=f1['stmt'])
     rep.require(set(result) == {'forward', 'reverse'}, 'find_kmers: need one forward and one reverse search loop')
     all_yields = [n for n in ast.walk(fn) if isinstance(n, (ast.Yield, ast.YieldFrom))]
-    rep.add('K1', fi.site(), 'matches are produced only by the two analysed search loops (no other yield)', len(all_yields) == 2, expected='2 yields', found=len(all_yields), stmt='yield census')
+    stray = [n for n in all_yields if id(n) not in accounted_yields]
+    rep.add('K1', fi.site(), 'matches are produced only by the two analysed search loops (no other yield)', not stray, expected='2 yields',
+            found=[u(n) for n in stray] or len(all_yields), stmt='yield census')
     rep.add('K1', fi.site(), 'both strands are searched in the same haystack', len(hay_names) == 1, expected='one haystack', found=sorted(hay_names),
             stmt='haystack')
-    # no statement between/after loops drops matches: the function has no return before the loops
-    early = [s for s in fn.body if isinstance(s, ast.Return)]
-    rep.add('K1', fi.site(), 'no early return before both searches ran', not early, expected='none', found=[u(e) for e in early], stmt='early return')
+    # early returns: only when no occurrence with a full k-mer can exist (sequence shorter than prefix + k)
+    lenv = dict(env)
+    for h in hay_names | {seqp}:
+        lenv[f'len({h})'] = sym('LEN')
+    for (s, test, rets) in ex.early:
+        ok, why = short_sequence_guard(test, lenv, hay_names | {seqp})
+        for r in rets:
+            accounted_returns.add(id(r))
+        rep.add('K1', fi.site(s), 'an early return happens only when the sequence cannot hold the prefix plus a full k-mer (len < prefix_len + k)', ok,
+                expected='len(haystack) < prefix_len + k, or a weaker bound', found=why, stmt=f'early return under {u(s.test)}')
+    early = [s for s in stmts_in(fn.body) if isinstance(s, ast.Return) and id(s) not in accounted_returns and not any(s is x for x in ex.top_returns)]
+    rep.add('K1', fi.site(early[0] if early else None), 'no early return before both searches ran', not early, expected='none', found=[u(e) for e in early], stmt='early return')
     analyse_case_folding(ctx, fi, result, spec, seqp)
     return result
+
+
+def short_sequence_guard(test, lenv, hay_names):
+    """Does `test` imply LEN <= K + P - 1 for every K >= 1, P >= 0 ?  -> (ok, description)"""
+    LEN = sym('LEN')
+    if isinstance(test, ast.UnaryOp) and isinstance(test.op, ast.Not) and isinstance(test.operand, ast.Name) and test.operand.id in hay_names:
+        return True, 'empty sequence'
+    if not (isinstance(test, ast.Compare) and len(test.ops) == 1):
+        return False, f'`{u(test)}` is not a bound on the sequence length'
+    l, r = Aff.try_of(test.left, lenv), Aff.try_of(test.comparators[0], lenv)
+    if l is None or r is None:
+        return False, f'`{u(test)}` is not an affine bound on the sequence length'
+    op = type(test.ops[0])
+    if op is ast.Lt:
+        g = l.sub(r).plus(1)          # l < r   <=>  l - r + 1 <= 0
+    elif op is ast.LtE:
+        g = l.sub(r)
+    elif op is ast.Gt:
+        g = r.sub(l).plus(1)
+    elif op is ast.GtE:
+        g = r.sub(l)
+    elif op is ast.Eq:
+        g = l.sub(r) if l.terms.get('LEN', 0) > 0 else r.sub(l)     # equality implies <=
+    else:
+        return False, f'`{u(test)}` is not an upper bound on the sequence length'
+    c = g.terms.get('LEN', 0)
+    if c <= 0:
+        return False, f'`{u(test)}` is not an upper bound on the sequence length'
+    g = g.scale(1 / c)                 # LEN + rest <= 0   <=>   LEN <= -rest
+    rest = g.sub(LEN)
+    diff = K.add(P).plus(-1).add(rest)  # (K + P - 1) - (-rest) must be >= 0 for all K >= 1, P >= 0
+    if set(diff.terms) - {'K', 'P'}:
+        return False, f'bound {rest.scale(-1)} depends on something else than k and the prefix length'
+    a, b = diff.terms.get('K', 0), diff.terms.get('P', 0)
+    ok = a >= 0 and b >= 0 and a + diff.const >= 0
+    return ok, f'returns when len <= {rest.scale(-1)}' + ('' if ok else ' - a sequence of that length can still hold prefix + k-mer')
 
 
 # ------------------------------------------------------------------------------------------------ K6
@@ -224,7 +871,8 @@ def analyse_case_folding(ctx, fi, loops, spec, seqp):
     rep, m = ctx.rep, ctx.model
     fn = fi.node
     hay = loops['forward']['hay']
-    first_loop = min((loops[k]['loop'] for k in loops), key=lambda l: l.lineno)
+    first_find = min((loops[k]['first_stmt'] for k in loops), key=lambda st: block_path(fn, st)[0][1])
+    first_idx = block_path(fn, first_find)[0][1]
     # haystack origin
     defs = assigns_to(fn, hay)
     rep.require(defs, f'find_kmers: haystack {hay} is never assigned')
@@ -232,54 +880,81 @@ def analyse_case_folding(ctx, fi, loops, spec, seqp):
     v0 = def_value(d0)
     ok0 = isinstance(v0, ast.Call) and (
         (m.resolve_call(fi, v0) == 'gambit.seq.seq_to_bytes' and [u(a) for a in v0.args] == [seqp]) or
-        (callee_attr(v0) == 'upper' and isinstance(v0.func.value, ast.Call) and m.resolve_call(fi, v0.func.value) == 'gambit.seq.seq_to_bytes'))
+        (callee_attr(v0) == 'upper' and isinstance(v0.func.value, ast.Call) and m.resolve_call(fi, v0.func.value) == 'gambit.seq.seq_to_bytes'
+         and [u(a) for a in v0.func.value.args] == [seqp]))
     rep.add('K6', fi.site(d0), 'the haystack is the byte form of the whole input sequence', ok0, expected=f'seq_to_bytes({seqp})', found=u(v0), stmt='haystack def')
-    uppers = [s for s in defs if isinstance(def_value(s), ast.Call) and callee_attr(def_value(s)) == 'upper']
+    uppers = [s for s in defs if isinstance(def_value(s), ast.Call) and callee_attr(def_value(s)) == 'upper' and not def_value(s).args]
     others = [s for s in defs if s is not d0 and s not in uppers]
     rep.add('K6', fi.site(), 'the haystack is not otherwise rewritten', not others, expected='none', found=[u(s) for s in others], stmt='haystack writes')
     if not uppers:
-        rep.add('K6', fi.site(first_loop), 'lower-case input is matched: the haystack is upper-cased before searching', False,
+        rep.add('K6', fi.site(first_find), 'lower-case input is matched: the haystack is upper-cased before searching', False,
                 expected=f'{hay} = {hay}.upper()', found='no upper() of the haystack', stmt='upper')
         return
     up = uppers[-1]
     bp = block_path(fn, up)
-    before = up.lineno < first_loop.lineno
+    before = bp[0][1] < first_idx
+    upv = def_value(up)
+    src_ok = u(upv.func.value) == hay or (up is d0)
     if len(bp) == 1:
-        ok = before
+        ok = before and src_ok
         found = 'unconditional'
     else:
-        # the guarded idiom: for c in H: if c in <lower-case nucleotides>: H = H.upper(); break
+        # the condition under which the haystack is upper-cased must be implied by "some byte of the haystack is a lower-case
+        # nucleotide".  Recognised meanings: EXISTS x: x in A and x in B with {A, B} = {haystack, lower-case nucleotides}
+        # (a for/if/break scan, any(x in A for x in B) - in either nesting order), or a classified whole-string predicate.
         owners = [o for (_, _, o) in bp[1:]]
         ok = False
         found = 'conditional'
-        if len(owners) == 2 and isinstance(owners[0], ast.For) and isinstance(owners[1], ast.If) and u(owners[0].iter) == hay \
-                and isinstance(owners[0].target, ast.Name):
-            t = owners[1].test
-            c = owners[0].target.id
-            if isinstance(t, ast.Compare) and len(t.ops) == 1 and isinstance(t.ops[0], ast.In) and u(t.left) == c:
-                cont = t.comparators[0]
-                cv = cont
-                if isinstance(cont, ast.Name):
-                    d = reaching_def(fn, cont.id, owners[0])
-                    cv = def_value(d) if d not in (None, PARAM, AMBIGUOUS) else None
-                lower_of_nucs = isinstance(cv, ast.Call) and callee_attr(cv) == 'lower' and \
-                    m.resolve(fi.module, cv.func.value) == 'gambit.seq.NUCLEOTIDES'
-                literal = isinstance(cv, ast.Constant) and isinstance(cv.value, bytes) and set(cv.value) >= set(b'acgt')
-                ok = before and (lower_of_nucs or literal) and not owners[1].orelse
-                found = f'guarded by `{u(t)}` with container {u(cv)}'
-        if not ok and found == 'conditional' and len(owners) == 1 and isinstance(owners[0], ast.If) and not owners[0].orelse:
-            # classified single-test guards (closed table; anything else is outside the vocabulary)
-            t = u(owners[0].test).replace(' ', '')
-            sufficient = {f'not{hay}.isupper()', f'{hay}!={hay}.upper()', f'{hay}.upper()!={hay}', f'not({hay}=={hay}.upper())'}
-            insufficient = {f'{hay}.islower()': 'bytes.islower() is True only when ALL cased bytes are lower case: mixed-case (soft-masked) input is not folded',
-                            f'{hay}[0:1].islower()': 'looks at the first byte only', f'{hay}[:1].islower()': 'looks at the first byte only',
-                            f'{hay}.isalpha()': 'unrelated to case'}
-            if t in sufficient:
-                ok, found = before, f'guarded by `{u(owners[0].test)}` (true whenever any byte is lower case)'
-            elif t in insufficient:
-                ok, found = False, f'guarded by `{u(owners[0].test)}`: {insufficient[t]}'
+
+        def lower_container(cont, at):
+            cv = cont
+            if isinstance(cont, ast.Name):
+                d = reaching_def(fn, cont.id, at)
+                cv = def_value(d) if d not in (None, PARAM, AMBIGUOUS) else None
+            lower_of_nucs = isinstance(cv, ast.Call) and callee_attr(cv) == 'lower' and not cv.args and \
+                m.resolve(fi.module, cv.func.value) == 'gambit.seq.NUCLEOTIDES'
+            literal = isinstance(cv, ast.Constant) and isinstance(cv.value, bytes) and set(cv.value) >= set(b'acgt')
+            return lower_of_nucs or literal, cv
+
+        def exists_common(target, it, test, at):
+            """for <target> in <it>: <test>  read as  EXISTS x in it: x in C  -> (ok, description) or None when not of that form"""
+            if not (isinstance(target, ast.Name) and isinstance(test, ast.Compare) and len(test.ops) == 1 and isinstance(test.ops[0], ast.In)
+                    and u(test.left) == target.id):
+                return None
+            a, b = it, test.comparators[0]
+            for h, c in ((a, b), (b, a)):
+                if isinstance(h, ast.Name) and h.id == hay:
+                    okc, cv = lower_container(c, at)
+                    return okc, f'some element common to {hay} and {u(cv) if cv is not None else u(c)}'
+            return False, f'`{u(test)}` for {target.id} in {u(it)} does not look at the haystack'
+        if len(owners) == 2 and isinstance(owners[0], ast.For) and isinstance(owners[1], ast.If) and not owners[1].orelse and not owners[0].orelse:
+            r = exists_common(owners[0].target, owners[0].iter, owners[1].test, owners[0])
+            if r is not None:
+                ok, found = before and src_ok and r[0], f'guarded by a scan for {r[1]}'
+        elif len(owners) == 1 and isinstance(owners[0], ast.If) and not owners[0].orelse:
+            t0 = owners[0].test
+            if isinstance(t0, ast.Call) and isinstance(t0.func, ast.Name) and t0.func.id in ('any', 'all') and len(t0.args) == 1 and not t0.keywords \
+                    and isinstance(t0.args[0], (ast.GeneratorExp, ast.ListComp)) and len(t0.args[0].generators) == 1 and not t0.args[0].generators[0].ifs \
+                    and not t0.args[0].generators[0].is_async:
+                g = t0.args[0].generators[0]
+                r = exists_common(g.target, g.iter, t0.args[0].elt, owners[0])
+                if r is not None and t0.func.id == 'any':
+                    ok, found = before and src_ok and r[0], f'guarded by any(): {r[1]}'
+                elif r is not None:
+                    ok, found = False, f'guarded by all(): true only when EVERY element qualifies ({r[1]}): mixed-case input is not folded'
+            else:
+                # classified single-test guards (closed table; anything else is outside the vocabulary)
+                t = u(t0).replace(' ', '')
+                sufficient = {f'not{hay}.isupper()', f'{hay}!={hay}.upper()', f'{hay}.upper()!={hay}', f'not({hay}=={hay}.upper())'}
+                insufficient = {f'{hay}.islower()': 'bytes.islower() is True only when ALL cased bytes are lower case: mixed-case (soft-masked) input is not folded',
+                                f'{hay}[0:1].islower()': 'looks at the first byte only', f'{hay}[:1].islower()': 'looks at the first byte only',
+                                f'{hay}.isalpha()': 'unrelated to case'}
+                if t in sufficient:
+                    ok, found = before and src_ok, f'guarded by `{u(t0)}` (true whenever any byte is lower case)'
+                elif t in insufficient:
+                    ok, found = False, f'guarded by `{u(t0)}`: {insufficient[t]}'
         if not ok and found == 'conditional':
-            raise Undecided('find_kmers: upper() of the haystack is under an unrecognised condition')
+            raise Undecided(f'find_kmers: upper() of the haystack is under an unrecognised condition ({"; ".join(u(getattr(o, "test", None) or getattr(o, "iter", None)) for o in owners)})')
     rep.add('K6', fi.site(up), 'the haystack is upper-cased whenever it contains a lower-case nucleotide, before either search', ok,
             expected='unconditional, or guarded by "some byte in NUCLEOTIDES.lower()"', found=found, stmt='upper')
 
@@ -290,24 +965,19 @@ def analyse_slices(ctx, loops):
     fi = m.func('gambit.kmers.KmerMatch.kmer_indices')
     rep.functions.add(fi.qualname)
     env = spec_env('self.kmerspec')
-    env = straightline_env(fi.node, env)
     env['self.pos'] = sym('pos')
-    gm = guard_map(fi.node)
-    rets = [s for s in stmts_in(fi.node.body) if isinstance(s, ast.Return)]
+    paths, _ = enum_paths(fi, 'kmer_indices')
+    rep.require(not any(p.effects for p in paths), 'kmer_indices: calls / loops executed for their effect are outside the evaluated vocabulary')
     found = {}
-    for r in rets:
-        vals = [(r.value, path_atoms(gm[r]))]
-        if isinstance(r.value, ast.IfExp):
-            vals = [(r.value.body, path_atoms(gm[r] + ((r.value.test, True),))), (r.value.orelse, path_atoms(gm[r] + ((r.value.test, False),)))]
-        for v, at in vals:
-            strand = 'reverse' if ('true', 'self.reverse') in at else 'forward' if ('false', 'self.reverse') in at else None
-            rep.require(strand is not None, f'kmer_indices: return not controlled by self.reverse: {u(r)}')
-            rep.require(isinstance(v, ast.Call) and u(v.func) == 'slice' and len(v.args) == 2 and not v.keywords,
-                        f'kmer_indices: return value is not slice(lo, hi): {u(v)}')
-            lo, hi = Aff.try_of(v.args[0], env), Aff.try_of(v.args[1], env)
-            rep.require(lo is not None and hi is not None, f'kmer_indices: non-affine slice bound in {u(v)}')
-            rep.require(strand not in found, f'kmer_indices: two returns for the {strand} strand')
-            found[strand] = (lo, hi, r)
+    for v, at, _g, r in return_values(paths, 'kmer_indices'):
+        strand = 'reverse' if ('true', 'self.reverse') in at else 'forward' if ('false', 'self.reverse') in at else None
+        rep.require(strand is not None, f'kmer_indices: return not controlled by self.reverse: {u(r)}')
+        rep.require(isinstance(v, ast.Call) and u(v.func) == 'slice' and len(v.args) == 2 and not v.keywords,
+                    f'kmer_indices: return value is not slice(lo, hi): {u(v)}')
+        lo, hi = Aff.try_of(v.args[0], env), Aff.try_of(v.args[1], env)
+        rep.require(lo is not None and hi is not None, f'kmer_indices: non-affine slice bound in {u(v)}')
+        rep.require(strand not in found, f'kmer_indices: two returns for the {strand} strand')
+        found[strand] = (lo, hi, r)
     rep.floor('K2', 'slice returns in kmer_indices', len(found), 2)
     pos = sym('pos')
     want = {'forward': (pos.add(P), pos.add(P).add(K)), 'reverse': (pos.sub(P).sub(K).plus(1), pos.sub(P).plus(1))}
@@ -340,26 +1010,20 @@ def analyse_slices(ctx, loops):
     # K4: strand dispatch
     fk = m.func('gambit.kmers.KmerMatch.kmer_index')
     rep.functions.add(fk.qualname)
-    gmk = guard_map(fk.node)
+    pk, _ = enum_paths(fk, 'kmer_index')
+    rep.require(not any(p.effects for p in pk), 'kmer_index: calls / loops executed for their effect are outside the evaluated vocabulary')
     disp = {}
-    for r in [s for s in stmts_in(fk.node.body) if isinstance(s, ast.Return)]:
-        vals = [(r.value, path_atoms(gmk[r]))]
-        if isinstance(r.value, ast.IfExp):
-            vals = [(r.value.body, path_atoms(gmk[r] + ((r.value.test, True),))), (r.value.orelse, path_atoms(gmk[r] + ((r.value.test, False),)))]
-        for v, at in vals:
-            strand = 'reverse' if ('true', 'self.reverse') in at else 'forward' if ('false', 'self.reverse') in at else None
-            rep.require(strand is not None and isinstance(v, ast.Call), f'kmer_index: return not controlled by self.reverse: {u(r)}')
-            disp[strand] = (v, r)
+    for v, at, _g, r in return_values(pk, 'kmer_index'):
+        strand = 'reverse' if ('true', 'self.reverse') in at else 'forward' if ('false', 'self.reverse') in at else None
+        rep.require(strand is not None and isinstance(v, ast.Call), f'kmer_index: return not controlled by self.reverse: {u(r)}')
+        rep.require(strand not in disp, f'kmer_index: two returns for the {strand} strand')
+        disp[strand] = (v, r)
     rep.floor('K4', 'dispatch branches in kmer_index', len(disp), 2)
     for strand, wantf in (('forward', 'gambit.kmers.kmer_to_index'), ('reverse', 'gambit.kmers.kmer_to_index_rc')):
         v, r = disp[strand]
         tgt = m.resolve_call(fk, v)
         rep.add('K4', fk.site(r), f'{strand} match is encoded with {wantf.rsplit(".", 1)[1]}', tgt == wantf, expected=wantf, found=tgt, stmt=f'{strand}: encoder')
-        arg = v.args[0] if v.args else None
-        av = arg
-        if isinstance(arg, ast.Name):
-            d = reaching_def(fk.node, arg.id, r)
-            av = def_value(d) if d not in (None, PARAM, AMBIGUOUS) else None
+        av = v.args[0] if len(v.args) == 1 and not v.keywords else None
         ok = isinstance(av, ast.Subscript) and u(av.value) == 'self.seq' and isinstance(av.slice, ast.Call) \
             and m.resolve_call(fk, av.slice) == 'gambit.kmers.KmerMatch.kmer_indices'
         rep.add('K4', fk.site(r), f'{strand}: the encoded bytes are self.seq[self.kmer_indices()]', ok, expected='self.seq[self.kmer_indices()]', found=u(av),
@@ -420,40 +1084,186 @@ def analyse_accumulate(ctx):
                 stmt='try extent')
 
     rep.account_returns('K5', fi, [], 'match (the loop must see every occurrence: no return at all)')
-    # K9
+    analyse_calc_signature(ctx)
+
+
+# ------------------------------------------------------------------------------------------------ K9
+def analyse_calc_signature(ctx):
+    """calc_signature, evaluated per path: whichever way the single-sequence case and the default accumulator are spelled
+    (rebinding the parameter, a conditional expression bound to a new local, an if/else around a direct call and a loop),
+    on every path  - one accumulator object A: the caller's when given, default_accumulator(kmerspec.k) created once otherwise,
+                   - accumulate_kmers(A, kmerspec, s) exactly once for the single sequence / once per element of the collection,
+                   - the result is A.signature()."""
+    rep, m = ctx.rep, ctx.model
     fc = m.func('gambit.sigs.calc.calc_signature')
     rep.functions.add(fc.qualname)
     ps = fc.params()
     spec2, seqs = ps[0], ps[1]
     accp = 'accumulator'
-    fors = [s for s in fc.node.body if isinstance(s, ast.For)]
-    rep.require(len(fors) == 1, 'calc_signature: expected one for loop over the sequences')
-    loop = fors[0]
-    calls = [c for c in calls_in(loop) if m.resolve_call(fc, c) == 'gambit.sigs.calc.accumulate_kmers']
-    ok = u(loop.iter) == seqs and isinstance(loop.target, ast.Name) and len(calls) == 1 and \
-        [u(a) for a in calls[0].args] == [accp, spec2, loop.target.id] and len(loop.body) == 1
-    rep.add('K9', fc.site(loop), 'each sequence is searched separately and feeds one shared accumulator', ok,
-            expected=f'for s in {seqs}: accumulate_kmers({accp}, {spec2}, s)', found=u(loop)[:100], stmt='per-sequence loop')
-    wrap = [s for s in fc.node.body if isinstance(s, ast.If) and isinstance(s.test, ast.Call) and u(s.test.func) == 'isinstance'
-            and u(s.test.args[0]) == seqs]
-    okw = len(wrap) == 1 and m.resolve(fc.module, wrap[0].test.args[1]) == 'gambit.seq.SEQ_TYPES' and len(wrap[0].body) == 1 \
-        and u(wrap[0].body[0]) in (f'{seqs} = [{seqs}]', f'{seqs} = ({seqs},)') and wrap[0].lineno < loop.lineno
-    rep.add('K9', fc.site(wrap[0] if wrap else loop), 'a single sequence of any accepted type is treated as a one-element collection', okw,
-            expected=f'if isinstance({seqs}, SEQ_TYPES): {seqs} = [{seqs}]', found=[u(w)[:80] for w in wrap], stmt='single-sequence wrap')
-    dflt = [s for s in fc.node.body if isinstance(s, ast.If) and ('is', 'None', accp) in (atoms(s.test) or set())]
-    okd = len(dflt) == 1 and len(dflt[0].body) == 1 and isinstance(def_value(dflt[0].body[0]), ast.Call) and \
-        m.resolve_call(fc, def_value(dflt[0].body[0])) == 'gambit.sigs.calc.default_accumulator' and \
-        [u(a) for a in def_value(dflt[0].body[0]).args] == [f'{spec2}.k'] and dflt[0].lineno < loop.lineno
-    rep.add('K9', fc.site(dflt[0] if dflt else loop), 'the default accumulator is built for this k', okd, expected=f'default_accumulator({spec2}.k)',
-            found=[u(d)[:80] for d in dflt], stmt='default accumulator')
+    rep.require(accp in ps, 'calc_signature: no `accumulator` parameter')
+    paths, tokens = enum_paths(fc, 'calc_signature', subst_calls=False)
+    paths = [p for p in paths if p.kind != 'raise']
+    rep.require(paths, 'calc_signature: no path returns')
+
+    def flag(p, pred):
+        """polarity with which a guard satisfying pred holds on path p (None: not tested on this path)"""
+        for (t, pol) in p.guards:
+            v = pred(t)
+            if v is not None:
+                return pol == v
+        return None
+
+    def is_single(t):
+        if isinstance(t, ast.Call) and u(t.func) == 'isinstance' and len(t.args) == 2 and u(t.args[0]) == seqs \
+                and m.resolve(fc.module, t.args[1]) == 'gambit.seq.SEQ_TYPES':
+            return True
+        return None
+
+    def is_accnone(t):
+        a = atoms(t, True)
+        if a == {('is', 'None', accp)}:
+            return True
+        if a == {('isnot', 'None', accp)}:
+            return False
+        return None
+
+    def acc_call(c):
+        return isinstance(c, ast.Call) and m.resolve_call(fc, c) == 'gambit.sigs.calc.accumulate_kmers'
+
+    loop_bad, wrap_bad, acc_bad, res_bad, early = [], [], [], [], []
+    seen_single, seen_accnone = set(), set()
+    site_loop = site_wrap = site_acc = None
+    for p in paths:
+        single, accnone = flag(p, is_single), flag(p, is_accnone)
+        seen_single.add(single)
+        seen_accnone.add(accnone)
+        calls = []     # (kind, node, accumulator expr, spec expr, sequence source)
+        extra = []
+        for (k, node, e, inner) in p.effects:
+            if k == 'expr' and acc_call(e):
+                a = [get_arg(e, i, n) for i, n in enumerate(('accumulator', 'kmerspec', 'seq'))]
+                calls.append(('direct', node, a[0], a[1], a[2], None))
+            elif k == 'for':
+                body = [x for x in node.body if not isinstance(x, ast.Pass)]
+                if isinstance(node.target, ast.Name) and len(body) == 1 and isinstance(body[0], ast.Expr) and acc_call(body[0].value):
+                    c = subst(body[0].value, inner)
+                    a = [get_arg(c, i, n) for i, n in enumerate(('accumulator', 'kmerspec', 'seq'))]
+                    calls.append(('loop', node, a[0], a[1], a[2] if u(a[2]) != node.target.id else None, e))
+                else:
+                    calls.append(('badloop', node, None, None, None, e))
+            else:
+                extra.append(node)
+        for node in extra:
+            touched = names_in(node) & ({accp, seqs} | {n.id for n in ast.walk(node) if isinstance(n, ast.Name) and n.id in {t.split('@')[0] for t in tokens}})
+            if touched:
+                loop_bad.append(f'`{u(node)[:60]}` also acts on {sorted(touched)}')
+            else:
+                raise Undecided(f'calc_signature: the effect of `{u(node)[:60]}` is outside the evaluated vocabulary')
+        # the accumulator of this path
+        accs = {u(c[2]) for c in calls if c[2] is not None and c[2] is not Ellipsis}
+        if p.kind != 'return' or p.value is None:
+            res_bad.append('a path ends without returning')
+            continue
+        v = p.value
+        racc = u(v.func.value) if isinstance(v, ast.Call) and isinstance(v.func, ast.Attribute) and v.func.attr == 'signature' and not v.args and not v.keywords else None
+        if racc is None or (accs and accs != {racc}):
+            res_bad.append(f'returns {u(v)[:60]}, accumulated into {sorted(accs)}')
+        if not calls:
+            early.append(p.stmt)
+        A = racc if racc is not None else (sorted(accs)[0] if accs else None)
+        if len(accs) > 1:
+            loop_bad.append(f'several accumulators on one path: {sorted(accs)}')
+        # where A comes from
+        site_acc = site_acc or p.stmt
+        if A in tokens:
+            dv, dst = tokens[A]
+            okd = isinstance(dv, ast.Call) and m.resolve_call(fc, dv) == 'gambit.sigs.calc.default_accumulator' and [u(x) for x in dv.args] == [f'{spec2}.k'] and not dv.keywords
+            site_acc = dst
+            if not okd:
+                acc_bad.append(f'{u(dv)[:60]}')
+            elif accnone is not True:
+                acc_bad.append(f'{u(dv)[:50]} replaces the accumulator although it is not None on this path')
+        elif A == accp:
+            if accnone is not False:
+                acc_bad.append(f'the parameter is used {"when it is None" if accnone else "without testing it for None"}')
+        else:
+            acc_bad.append(f'accumulator is {A}')
+        # what is searched
+        for (k, node, a, sp, sq, it) in calls:
+            if k == 'badloop':
+                site_loop = site_loop or node
+                loop_bad.append(f'loop body is not the single call accumulate_kmers(<accumulator>, {spec2}, <element>): {u(node)[:90]}')
+                continue
+            if sp is None or u(sp) != spec2:
+                loop_bad.append(f'accumulate_kmers is given the parameters {u(sp)}')
+        direct = [c for c in calls if c[0] == 'direct']
+        loops = [c for c in calls if c[0] == 'loop']
+        for c in loops:
+            if _has(c[5], lambda n: isinstance(n, ast.Call) or (isinstance(n, ast.Name) and n.id in tokens)):
+                raise Undecided(f'calc_signature: the sequences iterated over come from `{u(tokens[u(c[5])][0]) if u(c[5]) in tokens else u(c[5])}`: outside the evaluated vocabulary '
+                                f'(the parameter itself or a one-element list / tuple of it)')
+        one_elt = lambda e: isinstance(e, (ast.List, ast.Tuple)) and len(e.elts) == 1 and u(e.elts[0]) == seqs   # noqa: E731
+        if single is True:
+            site_wrap = site_wrap or (calls[0][1] if calls else p.stmt)
+            ok1 = (len(direct) == 1 and not loops and u(direct[0][4]) == seqs) or \
+                  (len(loops) == 1 and not direct and loops[0][4] is None and one_elt(loops[0][5]))
+            if not ok1:
+                wrap_bad.append([u(c[1])[:70] if c[0] == 'direct' else f'for ... in {u(c[5])[:40]}' for c in calls] or 'nothing searched')
+        else:
+            site_loop = site_loop or (loops[0][1] if loops else p.stmt)
+            okl = len(loops) == 1 and not direct and loops[0][4] is None and u(loops[0][5]) == seqs
+            if not okl and not any(c[0] == 'badloop' for c in calls):
+                loop_bad.append([u(c[1])[:70] if c[0] == 'direct' else f'for ... in {u(c[5])[:40]}' for c in calls] or 'nothing searched')
+    if True not in seen_single or False not in seen_single:
+        wrap_bad.append(f'no path distinguishes a single sequence: isinstance({seqs}, SEQ_TYPES) is not tested')
+    if True not in seen_accnone or False not in seen_accnone:
+        acc_bad.append(f'`{accp} is None` is not tested')
     last = fc.node.body[-1]
-    rep.add('K9', fc.site(last), 'the result is the signature of that accumulator', isinstance(last, ast.Return) and u(last.value) == f'{accp}.signature()',
-            expected=f'return {accp}.signature()', found=u(last)[:80], stmt='result')
-    rets = [s for s in stmts_in(fc.node.body) if isinstance(s, ast.Return) and s is not last]
-    rep.add('K9', fc.site(), 'no early return', not rets, expected='none', found=[u(r) for r in rets], stmt='early return')
+    rep.add('K9', fc.site(site_loop or last), 'each sequence is searched separately and feeds one shared accumulator', not loop_bad,
+            expected=f'for s in {seqs}: accumulate_kmers(<accumulator>, {spec2}, s)', found=loop_bad[:3] or 'ok', stmt='per-sequence loop')
+    rep.add('K9', fc.site(site_wrap or last), 'a single sequence of any accepted type is treated as a one-element collection', not wrap_bad,
+            expected=f'isinstance({seqs}, SEQ_TYPES) -> accumulate_kmers(<accumulator>, {spec2}, {seqs}) exactly once', found=wrap_bad[:3] or 'ok', stmt='single-sequence wrap')
+    rep.add('K9', fc.site(site_acc or last), 'the default accumulator is built for this k, once, exactly when none was given', not acc_bad, expected=f'default_accumulator({spec2}.k) if {accp} is None',
+            found=sorted(set(acc_bad))[:3] or 'ok', stmt='default accumulator')
+    rep.add('K9', fc.site(last), 'the result is the signature of that accumulator', not res_bad, expected='return <accumulator>.signature()', found=res_bad[:3] or 'ok', stmt='result')
+    rep.add('K9', fc.site(early[0] if early else None), 'no early return', not early, expected='none', found=[u(r) for r in early], stmt='early return')
 
 
 # ------------------------------------------------------------------------------------------------ K7
+def array_props(e, store, kind):
+    """What is known about an array expression built from the accumulator storage `store`:
+    from_store (holds exactly the stored indices), sorted (ascending, duplicate-free), dtype (== self._dtype)."""
+    NP = ('np.', 'numpy.')
+
+    def npf(c, name):
+        return isinstance(c, ast.Call) and any(u(c.func) == p + name for p in NP)
+    out = dict(from_store=False, sorted=False, dtype=False, why='')
+    if isinstance(e, ast.Call) and isinstance(e.func, ast.Attribute) and e.func.attr == 'astype' and [u(a) for a in e.args] == ['self._dtype'] and not e.keywords:
+        out = array_props(e.func.value, store, kind)
+        out['dtype'] = True
+        return out
+    if isinstance(e, ast.Call) and (u(e.func) == '__sorted_in_place__' or npf(e, 'sort') or npf(e, 'unique')) and len(e.args) == 1 and not e.keywords:
+        # np.sort / np.unique return a sorted copy with the dtype of their argument
+        out = array_props(e.args[0], store, kind)
+        out['sorted'] = out['from_store']
+        return out
+    if kind == 'dense':
+        if npf(e, 'flatnonzero') and [u(a) for a in e.args] == [store] and not e.keywords:
+            out.update(from_store=True, sorted=True)
+        return out
+    if isinstance(e, ast.Call) and (npf(e, 'fromiter') or npf(e, 'array')) and e.args:
+        src = u(e.args[0])
+        out['dtype'] = u(get_arg(e, 1, 'dtype')) == 'self._dtype'
+        cnt = get_arg(e, 2, 'count') if npf(e, 'fromiter') else None
+        cnt_ok = cnt is None or u(cnt) in (f'len({store})', '-1')
+        others = [k.arg for k in e.keywords if k.arg not in ('dtype', 'count')]
+        out['from_store'] = src in (store, f'list({store})', f'sorted({store})', f'iter({store})') and cnt_ok and not others and len(e.args) <= 3
+        out['sorted'] = out['from_store'] and src == f'sorted({store})'
+        if not cnt_ok:
+            out['why'] = f'count={u(cnt)} is not the number of stored indices'
+    return out
+
+
 def analyse_accumulators(ctx):
     rep, m = ctx.rep, ctx.model
     subs = m.subclasses('gambit.sigs.calc.KmerAccumulator')
@@ -506,40 +1316,15 @@ def analyse_accumulators(ctx):
                 ok = u(c.func) == f'self.{store_attr}.add' and u(inner) == ap
         rep.add('K7', add.site(), f'{ci.name}.add records exactly its own argument', ok, expected='store of the argument', found=[u(s) for s in body],
                 stmt=f'{ci.name}: add')
-        # signature
-        rets = [s for s in stmts_in(sig.node.body) if isinstance(s, ast.Return)]
-        rep.require(len(rets) == 1, f'{ci.qualname}.signature: expected one return')
-        r = rets[0]
-        v = r.value
-        sorted_unique = False
-        dtype_ok = False
-        found = u(v)
-        if store_kind == 'dense':
-            inner = v
-            if isinstance(v, ast.Call) and callee_attr(v) == 'astype' and isinstance(v.func, ast.Attribute):
-                dtype_ok = [u(a) for a in v.args] == ['self._dtype']
-                inner = v.func.value
-            sorted_unique = isinstance(inner, ast.Call) and u(inner.func) in ('np.flatnonzero', 'numpy.flatnonzero') \
-                and [u(a) for a in inner.args] == [f'self.{store_attr}']
-        else:
-            if isinstance(v, ast.Name):
-                defs = assigns_to(sig.node, v.id)
-                rep.require(len(defs) >= 1, f'{ci.qualname}.signature: {v.id} undefined')
-                dv = def_value(defs[-1])
-                vid = v.id
-            else:
-                defs, dv, vid = [r], v, None      # array expression returned directly: nothing can sort it in place afterwards
-            found = u(dv)
-            from_set = isinstance(dv, ast.Call) and u(dv.func) in ('np.fromiter', 'numpy.fromiter', 'np.array', 'np.unique') and dv.args \
-                and (u(dv.args[0]) in (f'self.{store_attr}', f'list(self.{store_attr})', f'sorted(self.{store_attr})'))
-            dtype_ok = isinstance(dv, ast.Call) and u(get_arg(dv, 1, 'dtype')) == 'self._dtype'
-            sorts = [s for s in sig.node.body if vid is not None and isinstance(s, ast.Expr) and isinstance(s.value, ast.Call) and u(s.value.func) == f'{vid}.sort'
-                     and not s.value.args and not s.value.keywords and defs[-1].lineno < s.lineno < r.lineno]
-            resort = isinstance(dv, ast.Call) and (u(dv.func) == 'np.unique' or (dv.args and u(dv.args[0]).startswith('sorted(')))
-            sorted_unique = from_set and (bool(sorts) or resort)
-            found = f'{found}; sort statements: {[u(s) for s in sorts]}'
+        # signature: the returned value with locals substituted (an in-place x.sort() makes x the sorted array from there on)
+        spaths, _ = enum_paths(sig, f'{ci.qualname}.signature')
+        vals = return_values([p for p in spaths if p.kind != 'raise'], f'{ci.qualname}.signature')
+        rep.require(len(vals) == 1, f'{ci.qualname}.signature: expected one return')
+        v, _at, _g, r = vals[0]
+        pr = array_props(v, f'self.{store_attr}', store_kind)
+        sorted_unique, dtype_ok, found = pr['from_store'] and pr['sorted'], pr['dtype'], f'{u(v)}' + (f' ({pr["why"]})' if pr['why'] else '')
         rep.add('K7', sig.site(r), f'{ci.name}.signature is sorted and duplicate-free by construction', sorted_unique,
-                expected='np.flatnonzero(dense) | array from the set followed by an in-place sort', found=found, stmt=f'{ci.name}: sorted unique')
+                expected='np.flatnonzero(dense) | array from the set, sorted (in place, np.sort, np.unique or built from sorted())', found=found, stmt=f'{ci.name}: sorted unique')
         rep.add('K7', sig.site(r), f'{ci.name}.signature has dtype index_dtype(k)', dtype_ok, expected='self._dtype', found=found, stmt=f'{ci.name}: result dtype')
     # default_accumulator
     fd = m.func('gambit.sigs.calc.default_accumulator')
@@ -560,20 +1345,58 @@ def analyse_dtype_table(ctx):
     rep.functions.add(fi.qualname)
     kp = fi.params()[0]
 
-    def on_call(mini, e):
-        f = u(e.func)
-        if f in ('np.dtype', 'numpy.dtype') and len(e.args) == 1 and isinstance(e.args[0], ast.Constant):
-            return ('dtype', e.args[0].value)
-        if f in ('np.dtype', 'numpy.dtype') and len(e.args) == 1 and isinstance(e.args[0], ast.Attribute):
-            names = {'uint8': 'u1', 'uint16': 'u2', 'uint32': 'u4', 'uint64': 'u8'}
-            if e.args[0].attr in names:
-                return ('dtype', names[e.args[0].attr])
-        raise Undecided(f'index_dtype: call {u(e)}')
+    class MiniK(Mini):
+        """Mini + integer powers (4 ** k) - the table is evaluated on concrete k only."""
+
+        def binop(self, op, l, r, node=None):
+            if isinstance(op, ast.Pow) and type(l) is int and type(r) is int and 0 <= r <= 128:
+                return l ** r
+            return super().binop(op, l, r, node)
+
+    def make_on_call(caller, depth):
+        def on_call(mini, e):
+            f = u(e.func)
+            np_dtype = f in ('np.dtype', 'numpy.dtype')
+            if np_dtype and len(e.args) == 1 and not e.keywords and isinstance(e.args[0], ast.Constant):
+                return ('dtype', e.args[0].value)
+            if np_dtype and len(e.args) == 1 and not e.keywords and isinstance(e.args[0], ast.Attribute):
+                names = {'uint8': 'u1', 'uint16': 'u2', 'uint32': 'u4', 'uint64': 'u8'}
+                if e.args[0].attr in names and u(e.args[0].value) in ('np', 'numpy'):
+                    return ('dtype', names[e.args[0].attr])
+            if np_dtype and len(e.args) == 1 and not e.keywords and isinstance(e.args[0], ast.Call):
+                v = mini.ev(e.args[0])                      # np.dtype(<dtype>) is that dtype
+                if isinstance(v, tuple) and v and v[0] == 'dtype':
+                    return v
+            if f in ('np.min_scalar_type', 'numpy.min_scalar_type') and len(e.args) == 1 and not e.keywords:
+                # numpy: for a non-negative Python int the smallest unsigned type that holds it, object beyond 64 bits
+                n = mini.ev(e.args[0])
+                if type(n) is int and n >= 0:
+                    return next((('dtype', f'u{w}') for w in (1, 2, 4, 8) if n <= 256 ** w - 1), ('dtype', 'O'))
+                raise Undecided(f'index_dtype: np.min_scalar_type of {n!r} (only non-negative integers are modelled)')
+            tgt = m.resolve_call(caller, e)
+            if tgt is not None and m.has_func(tgt) and depth < 3:
+                # a function of the package (e.g. nkmers): evaluated on the concrete argument values
+                g = m.func(tgt)
+                ps = g.params()
+                a = g.node.args
+                if isinstance(g.node, ast.FunctionDef) and not e.keywords and len(e.args) == len(ps) and not any(isinstance(x, ast.Starred) for x in e.args) \
+                        and not a.vararg and not a.kwarg and not a.kwonlyargs and not g.node.decorator_list:
+                    sub = MiniK({p: mini.ev(x) for p, x in zip(ps, e.args)}, on_call=make_on_call(g, depth + 1))
+                    gb = [x for x in g.node.body if not (isinstance(x, ast.Expr) and isinstance(x.value, ast.Constant))]
+                    rep.functions.add(g.qualname)
+                    try:
+                        sub.run(gb)
+                    except Return as r:
+                        return r.value
+                    return None
+            raise Undecided(f'index_dtype: call {u(e)}')
+        return on_call
+    on_call = make_on_call(fi, 0)
     body = [s for s in fi.node.body if not (isinstance(s, ast.Expr) and isinstance(s.value, ast.Constant))]
     bad = []
     rows = {}
     for k in range(1, 33):
-        mini = Mini({kp: k}, on_call=on_call)
+        mini = MiniK({kp: k}, on_call=on_call)
         try:
             mini.run(body)
             res = None
@@ -629,20 +1452,21 @@ def check_seq_to_bytes(ctx):
 
 def check(ctx):
     rep = ctx.rep
-    rep.rule('K1', 'search loops of find_kmers: start/end/restart as affine forms, exit on miss, yielded pos and strand flag')
-    rep.rule('K2', 'kmer_indices slice bounds as affine forms per strand')
+    rep.rule('K1', 'search of each strand in find_kmers decided on its symbolic trace (find / hit test / yield / next find, two unrolled iterations + periodicity): start, end, restart as affine forms, exit on the miss only, yielded pos and strand flag; early return only below prefix_len + k')
+    rep.rule('K2', 'kmer_indices slice bounds as affine forms per strand (value reaching each return path, locals substituted)')
     rep.rule('K2.0', 'KmerSpec attribute definitions harvested from __attrs_init__')
     rep.rule('K3', 'composition K1 o K2: slice adjacent to the prefix, length k, inside the sequence')
     rep.rule('K4', 'strand dispatch to the right encoder on self.seq[self.kmer_indices()]')
     rep.rule('K5', 'skip discipline in accumulate_kmers: only ValueError, drops only the occurrence, add on success path')
     rep.rule('K6', 'case folding: haystack upper-cased (unconditionally or under the any-lower-case-nucleotide guard); needle upper-case')
     rep.rule('K7', 'accumulator siblings: dtype, storage, add, sorted-unique signature; default_accumulator returns one of them')
-    rep.rule('K8', 'index_dtype evaluated for every k in 1..32; nkmers = 4**k')
-    rep.rule('K9', 'calc_signature: one shared accumulator, one accumulate_kmers call per sequence')
+    rep.rule('K8', 'index_dtype evaluated for every k in 1..32 (threshold chains, np.min_scalar_type, package callees such as nkmers); nkmers = 4**k')
+    rep.rule('K9', 'calc_signature per path: one shared accumulator (caller\'s, or the default built once when None), accumulate_kmers once per sequence / once for a single sequence, result is its signature')
     rep.rule('K10', 'seq_to_bytes covers every member of SEQ_TYPES')
     rep.rule('T9', 'public k-mer functions bind to the analysed Cython functions (C07-T9)')
     rep.trusted += ['bytes.find(sub, start, end) returns the lowest index of a full occurrence inside [start, end) or -1',
-                    'np.flatnonzero returns sorted distinct indices; ndarray.sort() sorts in place']
+                    'np.flatnonzero returns sorted distinct indices; ndarray.sort() sorts in place; np.sort / np.unique return a sorted copy of the same dtype',
+                    'np.min_scalar_type(n) for a non-negative int is the smallest of uint8/16/32/64 holding n (object beyond)']
     rep.assumptions += ['That the discharged premises imply set equality with the specification is a hand argument (DESIGN.md 5/C01).',
                         'Encoder correctness is C07.']
     harvest_kmerspec(ctx)
@@ -658,6 +1482,17 @@ from ..variants import V  # noqa: E402
 
 _K = 'src/gambit/kmers.py'
 _C = 'src/gambit/sigs/calc.py'
+_FWD = "\tstart = 0\n\n\twhile True:\n\t\tloc = haystack.find(kmerspec.prefix, start, -kmerspec.k)\n\t\tif loc < 0:\n\t\t\tbreak\n\n\t\tyield KmerMatch(kmerspec, seq, loc, False)\n\n\t\tstart = loc + 1\n"
+_FWD_ROT = "\tloc = haystack.find(kmerspec.prefix, 0, -kmerspec.k)\n\twhile loc >= 0:\n\t\tyield KmerMatch(kmerspec, seq, loc, False)\n\t\tloc = haystack.find(kmerspec.prefix, loc + 1, -kmerspec.k)\n"
+_REV = "\tstart = kmerspec.k\n\n\twhile True:\n\t\tloc = haystack.find(prefix_rc, start)\n\t\tif loc < 0:\n\t\t\tbreak\n\n\t\tyield KmerMatch(kmerspec, seq, loc + kmerspec.prefix_len - 1, True)\n\n\t\tstart = loc + 1\n"
+_HELPER = "def _occurrences(text, sub, first, end=None):\n\tat = text.find(sub, first, end)\n\twhile at >= 0:\n\t\tyield at\n\t\tat = text.find(sub, at + 1, end)\n\n\n"
+_FOLD = "\tnucs_lower = NUCLEOTIDES.lower()\n\tfor char in haystack:\n\t\tif char in nucs_lower:\n\t\t\thaystack = haystack.upper()\n\t\t\tbreak\n"
+_IDX = ("\t\tif self.reverse:\n\t\t\treturn slice(self.pos - self.kmerspec.total_len + 1, self.pos - self.kmerspec.prefix_len + 1)\n"
+        "\t\telse:\n\t\t\treturn slice(self.pos + self.kmerspec.prefix_len, self.pos + self.kmerspec.total_len)\n")
+_SIG = "\t\tsig = np.fromiter(self.set, dtype=self._dtype)\n\t\tsig.sort()\n\t\treturn sig\n"
+_CS = ("\tif isinstance(seqs, SEQ_TYPES):\n\t\tseqs = [seqs]\n\n\tif accumulator is None:\n\t\taccumulator = default_accumulator(kmerspec.k)\n\n"
+       "\tfor seq in seqs:\n\t\taccumulate_kmers(accumulator, kmerspec, seq)\n\n\treturn accumulator.signature()\n")
+_DT = "\tif k <= 4:\n\t\treturn np.dtype('u1')\n\telif k <= 8:\n\t\treturn np.dtype('u2')\n\telif k <= 16:\n\t\treturn np.dtype('u4')\n\telif k <= 32:\n\t\treturn np.dtype('u8')\n\telse:\n\t\treturn None\n"
 VARIANTS = [
     V('forward restart after the whole prefix (overlaps missed)', 'B', _K, "\t\tyield KmerMatch(kmerspec, seq, loc, False)\n\n\t\tstart = loc + 1",
       "\t\tyield KmerMatch(kmerspec, seq, loc, False)\n\n\t\tstart = loc + kmerspec.prefix_len", 'K1'),
@@ -707,4 +1542,87 @@ VARIANTS = [
       "\t\tif self.reverse:\n\t\t\treturn kmer_to_index_rc(kmer)\n\t\treturn kmer_to_index(kmer)"),
     V('E: miss test loc == -1', 'E', _K, "\t\tloc = haystack.find(prefix_rc, start)\n\t\tif loc < 0:\n\t\t\tbreak", "\t\tloc = haystack.find(prefix_rc, start)\n\t\tif loc == -1:\n\t\t\tbreak"),
     V('E: handler pass + else add', 'E', _C, "\t\texcept ValueError:\n\t\t\tcontinue\n\t\taccumulator.add(index)", "\t\texcept ValueError:\n\t\t\tpass\n\t\telse:\n\t\t\taccumulator.add(index)"),
+    # K8: the dtype table computed instead of spelled out (evaluated for every k through np.min_scalar_type / nkmers)
+    V('E: dtype from np.min_scalar_type of the largest index', 'E', _K, _DT, "\tif k > 32:\n\t\treturn None\n\treturn np.min_scalar_type(nkmers(k) - 1)\n"),
+    V('E: dtype from np.min_scalar_type of 4 ** k - 1, wrapped in np.dtype', 'E', _K, _DT, "\tif k > 32:\n\t\treturn None\n\ttop = 4 ** k - 1\n\treturn np.dtype(np.min_scalar_type(top))\n"),
+    V('dtype sized for the number of k-mers 4^k instead of the largest index (seeded C01c)', 'B', _K, _DT, "\tif k > 32:\n\t\treturn None\n\treturn np.min_scalar_type(nkmers(k))\n", 'K8'),
+    V('dtype sized for the largest index of k - 1', 'B', _K, _DT, "\tif k > 32:\n\t\treturn None\n\treturn np.min_scalar_type(nkmers(k - 1) - 1)\n", 'K8'),
+    # ---- generalised forms (each accepted idiom with its broken twin)
+    # K1: the search as a trace - rotated loop (priming find, hit test as loop condition)
+    V('E: forward search as priming find + while loc >= 0', 'E', _K, _FWD, _FWD_ROT),
+    V('rotated forward loop restarts after the whole prefix', 'B', _K, _FWD, _FWD_ROT.replace("loc + 1, -kmerspec.k", "loc + kmerspec.prefix_len, -kmerspec.k"), 'K1'),
+    V('rotated forward loop: window of the restart find one too long', 'B', _K, _FWD, _FWD_ROT.replace("loc + 1, -kmerspec.k", "loc + 1, -kmerspec.k + 1"), 'K1'),
+    V('rotated forward loop: priming find starts at 1', 'B', _K, _FWD, _FWD_ROT.replace("kmerspec.prefix, 0, -kmerspec.k", "kmerspec.prefix, 1, -kmerspec.k"), 'K1'),
+    V('rotated forward loop: while loc > 0 drops the occurrence at position 0', 'B', _K, _FWD, _FWD_ROT.replace("while loc >= 0", "while loc > 0"), 'K1'),
+    V('rotated forward loop: restart find without window end', 'B', _K, _FWD, _FWD_ROT.replace("loc + 1, -kmerspec.k", "loc + 1"), 'K1'),
+    V('E: reverse search with the find in the loop condition (walrus)', 'E', _K, _REV,
+      "\tstart = kmerspec.k\n\n\twhile (loc := haystack.find(prefix_rc, start)) >= 0:\n\t\tyield KmerMatch(kmerspec, seq, loc + kmerspec.prefix_len - 1, True)\n\t\tstart = loc + 1\n"),
+    V('walrus reverse search reports the stale start instead of the hit', 'B', _K, _REV,
+      "\tstart = kmerspec.k\n\n\twhile (loc := haystack.find(prefix_rc, start)) >= 0:\n\t\tyield KmerMatch(kmerspec, seq, start + kmerspec.prefix_len - 1, True)\n\t\tstart = loc + 1\n", 'K1'),
+    V('E: hit branch nested under the hit test, miss falls to the break', 'E', _K, _REV,
+      "\tstart = kmerspec.k\n\n\twhile True:\n\t\tloc = haystack.find(prefix_rc, start)\n\t\tif loc >= 0:\n\t\t\tyield KmerMatch(kmerspec, seq, loc + kmerspec.prefix_len - 1, True)\n\t\t\tstart = loc + 1\n\t\t\tcontinue\n\t\tbreak\n"),
+    V('hit branch nested under the hit test, miss never leaves the loop', 'B', _K, _REV,
+      "\tstart = kmerspec.k\n\n\twhile True:\n\t\tloc = haystack.find(prefix_rc, start)\n\t\tif loc >= 0:\n\t\t\tyield KmerMatch(kmerspec, seq, loc + kmerspec.prefix_len - 1, True)\n\t\t\tstart = loc + 1\n", 'K1'),
+    V('E: searches through a generator helper', 'E', _K, _FWD, "\tfor loc in _occurrences(haystack, kmerspec.prefix, 0, -kmerspec.k):\n\t\tyield KmerMatch(kmerspec, seq, loc, False)\n",
+      also=[(_K, "def find_kmers(kmerspec: KmerSpec, seq: 'DNASeq') -> Iterator[KmerMatch]:", _HELPER + "def find_kmers(kmerspec: KmerSpec, seq: 'DNASeq') -> Iterator[KmerMatch]:")]),
+    V('generator helper skips overlapping occurrences', 'B', _K, _FWD, "\tfor loc in _occurrences(haystack, kmerspec.prefix, 0, -kmerspec.k):\n\t\tyield KmerMatch(kmerspec, seq, loc, False)\n", 'K1',
+      also=[(_K, "def find_kmers(kmerspec: KmerSpec, seq: 'DNASeq') -> Iterator[KmerMatch]:", _HELPER.replace("at + 1, end", "at + len(sub), end") + "def find_kmers(kmerspec: KmerSpec, seq: 'DNASeq') -> Iterator[KmerMatch]:")]),
+    V('every second occurrence yielded', 'B', _K, "\t\tyield KmerMatch(kmerspec, seq, loc, False)\n", "\t\tif loc % 2 == 0:\n\t\t\tyield KmerMatch(kmerspec, seq, loc, False)\n", 'K1'),
+    # K1: early return for sequences that cannot hold a match
+    V('E: early return when shorter than prefix + k', 'E', _K, "\thaystack = seq_to_bytes(seq)\n", "\thaystack = seq_to_bytes(seq)\n\tif len(haystack) < kmerspec.total_len:\n\t\treturn\n"),
+    V('E: early return when shorter than k (weaker bound)', 'E', _K, "\thaystack = seq_to_bytes(seq)\n", "\thaystack = seq_to_bytes(seq)\n\tmin_len = kmerspec.k\n\tif min_len > len(haystack):\n\t\treturn\n"),
+    V('early return drops sequences of exactly prefix + k', 'B', _K, "\thaystack = seq_to_bytes(seq)\n", "\thaystack = seq_to_bytes(seq)\n\tif len(haystack) <= kmerspec.total_len:\n\t\treturn\n", 'K1'),
+    V('early return for sequences shorter than twice the total length', 'B', _K, "\thaystack = seq_to_bytes(seq)\n", "\thaystack = seq_to_bytes(seq)\n\tif len(haystack) < 2 * kmerspec.total_len:\n\t\treturn\n", 'K1'),
+    V('early return between the two searches', 'B', _K, "\t# Find reverse\n", "\tif kmerspec.k > 16:\n\t\treturn\n", 'K1'),
+    # K6: "some byte of the haystack is a lower-case nucleotide", in any spelling of the existential
+    V('E: any() over the haystack bytes', 'E', _K, _FOLD, "\tnucs_lower = NUCLEOTIDES.lower()\n\tif any(char in nucs_lower for char in haystack):\n\t\thaystack = haystack.upper()\n"),
+    V('E: any() over the four lower-case codes (quantifiers swapped)', 'E', _K, _FOLD, "\tif any(nuc in haystack for nuc in NUCLEOTIDES.lower()):\n\t\thaystack = haystack.upper()\n"),
+    V('all() instead of any(): mixed-case input not folded', 'B', _K, _FOLD, "\tnucs_lower = NUCLEOTIDES.lower()\n\tif all(char in nucs_lower for char in haystack):\n\t\thaystack = haystack.upper()\n", 'K6'),
+    V('any() over the upper-case codes', 'B', _K, _FOLD, "\tif any(nuc in haystack for nuc in NUCLEOTIDES):\n\t\thaystack = haystack.upper()\n", 'K6'),
+    V('any() guard looks at the prefix, not at the haystack', 'B', _K, _FOLD, "\tif any(nuc in kmerspec.prefix for nuc in NUCLEOTIDES.lower()):\n\t\thaystack = haystack.upper()\n", 'K6'),
+    V('upper() of another value assigned to the haystack', 'B', _K, _FOLD, "\tif any(nuc in haystack for nuc in NUCLEOTIDES.lower()):\n\t\thaystack = kmerspec.prefix.upper()\n", 'K6'),
+    # K2 / K4: values bound to locals, guard clause instead of else, function selected first
+    V('E: slice bounds through locals, guard clause', 'E', _K, _IDX,
+      "\t\tspec = self.kmerspec\n\t\tif self.reverse:\n\t\t\tstop = self.pos - spec.prefix_len + 1\n\t\t\treturn slice(stop - spec.k, stop)\n\t\tstart = self.pos + spec.prefix_len\n\t\treturn slice(start, start + spec.k)\n"),
+    V('slice bounds through locals: reverse start subtracts total_len from the stop', 'B', _K, _IDX,
+      "\t\tspec = self.kmerspec\n\t\tif self.reverse:\n\t\t\tstop = self.pos - spec.prefix_len + 1\n\t\t\treturn slice(stop - spec.total_len, stop)\n\t\tstart = self.pos + spec.prefix_len\n\t\treturn slice(start, start + spec.k)\n", 'K2'),
+    V('E: bounds selected by conditional expressions', 'E', _K, _IDX,
+      "\t\tplen, k = self.kmerspec.prefix_len, self.kmerspec.k\n\t\tstart = self.pos - plen - k + 1 if self.reverse else self.pos + plen\n\t\treturn slice(start, start + k)\n"),
+    V('bounds selected by conditional expressions, arms swapped', 'B', _K, _IDX,
+      "\t\tplen, k = self.kmerspec.prefix_len, self.kmerspec.k\n\t\tstart = self.pos + plen if self.reverse else self.pos - plen - k + 1\n\t\treturn slice(start, start + k)\n", 'K2'),
+    V('E: k-mer range trimmed from the full range', 'E', _K, _IDX,
+      "\t\tif self.reverse:\n\t\t\tstop = self.pos + 1\n\t\t\tstart = stop - self.kmerspec.total_len\n\t\telse:\n\t\t\tstart = self.pos\n\t\t\tstop = start + self.kmerspec.total_len\n"
+      "\t\tif self.reverse:\n\t\t\treturn slice(start, stop - self.kmerspec.prefix_len)\n\t\treturn slice(start + self.kmerspec.prefix_len, stop)\n"),
+    V('k-mer range trimmed from the wrong end of the full range', 'B', _K, _IDX,
+      "\t\tif self.reverse:\n\t\t\tstop = self.pos + 1\n\t\t\tstart = stop - self.kmerspec.total_len\n\t\telse:\n\t\t\tstart = self.pos\n\t\t\tstop = start + self.kmerspec.total_len\n"
+      "\t\tif not self.reverse:\n\t\t\treturn slice(start, stop - self.kmerspec.prefix_len)\n\t\treturn slice(start + self.kmerspec.prefix_len, stop)\n", 'K2'),
+    V('E: encoder selected first, then applied', 'E', _K, "\t\tkmer = self.seq[self.kmer_indices()]\n\t\treturn kmer_to_index_rc(kmer) if self.reverse else kmer_to_index(kmer)",
+      "\t\tto_index = kmer_to_index_rc if self.reverse else kmer_to_index\n\t\treturn to_index(self.seq[self.kmer_indices()])"),
+    V('encoder selected first, arms swapped', 'B', _K, "\t\tkmer = self.seq[self.kmer_indices()]\n\t\treturn kmer_to_index_rc(kmer) if self.reverse else kmer_to_index(kmer)",
+      "\t\tto_index = kmer_to_index if self.reverse else kmer_to_index_rc\n\t\treturn to_index(self.seq[self.kmer_indices()])", 'K4'),
+    V('encoder selected first, applied to the full match', 'B', _K, "\t\tkmer = self.seq[self.kmer_indices()]\n\t\treturn kmer_to_index_rc(kmer) if self.reverse else kmer_to_index(kmer)",
+      "\t\tto_index = kmer_to_index_rc if self.reverse else kmer_to_index\n\t\treturn to_index(self.seq[self.full_indices()])", 'K4'),
+    # K7: sorted copy instead of in-place sort
+    V('E: np.sort of the array built from the set, preallocated', 'E', _C, _SIG, "\t\tunsorted = np.fromiter(self.set, dtype=self._dtype, count=len(self.set))\n\t\treturn np.sort(unsorted)\n"),
+    V('np.sort result discarded, unsorted array returned', 'B', _C, _SIG, "\t\tunsorted = np.fromiter(self.set, dtype=self._dtype, count=len(self.set))\n\t\tnp.sort(unsorted)\n\t\treturn unsorted\n", 'K7'),
+    V('preallocation count one short (largest index dropped)', 'B', _C, _SIG, "\t\tunsorted = np.fromiter(self.set, dtype=self._dtype, count=len(self.set) - 1)\n\t\treturn np.sort(unsorted)\n", 'K7'),
+    V('np.sort of an array with the default dtype', 'B', _C, _SIG, "\t\tunsorted = np.fromiter(self.set, dtype=int)\n\t\treturn np.sort(unsorted)\n", 'K7'),
+    # K9: the single-sequence case and the default accumulator in other spellings
+    V('E: one-element tuple bound to a new local by a conditional expression', 'E', _C, _CS,
+      "\tif accumulator is None:\n\t\taccumulator = default_accumulator(kmerspec.k)\n\n\tseq_iter = (seqs,) if isinstance(seqs, SEQ_TYPES) else seqs\n\n\tfor seq in seq_iter:\n\t\taccumulate_kmers(accumulator, kmerspec, seq)\n\n\treturn accumulator.signature()\n"),
+    V('conditional expression wraps the collection and iterates the single sequence', 'B', _C, _CS,
+      "\tif accumulator is None:\n\t\taccumulator = default_accumulator(kmerspec.k)\n\n\tseq_iter = seqs if isinstance(seqs, SEQ_TYPES) else (seqs,)\n\n\tfor seq in seq_iter:\n\t\taccumulate_kmers(accumulator, kmerspec, seq)\n\n\treturn accumulator.signature()\n", 'K9'),
+    V('E: direct call for a single sequence, loop otherwise, accumulator in a new local', 'E', _C, _CS,
+      "\tacc = default_accumulator(kmerspec.k) if accumulator is None else accumulator\n\n\tif isinstance(seqs, SEQ_TYPES):\n\t\taccumulate_kmers(acc, kmerspec, seqs)\n\telse:\n\t\tfor seq in seqs:\n\t\t\taccumulate_kmers(acc, kmerspec, seq)\n\n\treturn acc.signature()\n"),
+    V('direct call for a single sequence, then the loop runs over its characters as well', 'B', _C, _CS,
+      "\tacc = default_accumulator(kmerspec.k) if accumulator is None else accumulator\n\n\tif isinstance(seqs, SEQ_TYPES):\n\t\taccumulate_kmers(acc, kmerspec, seqs)\n\tfor seq in seqs:\n\t\taccumulate_kmers(acc, kmerspec, seq)\n\n\treturn acc.signature()\n", 'K9'),
+    V('new local for the accumulator, result taken from the parameter', 'B', _C, _CS,
+      "\tacc = default_accumulator(kmerspec.k) if accumulator is None else accumulator\n\n\tif isinstance(seqs, SEQ_TYPES):\n\t\taccumulate_kmers(acc, kmerspec, seqs)\n\telse:\n\t\tfor seq in seqs:\n\t\t\taccumulate_kmers(acc, kmerspec, seq)\n\n\treturn accumulator.signature()\n", 'K9'),
+    V('default accumulator chosen by truthiness (an empty accumulator passed in is replaced)', 'B', _C, _CS,
+      "\tacc = accumulator or default_accumulator(kmerspec.k)\n\n\tif isinstance(seqs, SEQ_TYPES):\n\t\taccumulate_kmers(acc, kmerspec, seqs)\n\telse:\n\t\tfor seq in seqs:\n\t\t\taccumulate_kmers(acc, kmerspec, seq)\n\n\treturn acc.signature()\n", 'K9'),
+    V('a second default accumulator is created for the result', 'B', _C, _CS,
+      "\tif isinstance(seqs, SEQ_TYPES):\n\t\tseqs = [seqs]\n\n\tfor seq in seqs:\n\t\taccumulate_kmers(default_accumulator(kmerspec.k) if accumulator is None else accumulator, kmerspec, seq)\n\n"
+      "\treturn (default_accumulator(kmerspec.k) if accumulator is None else accumulator).signature()\n", 'K9'),
+    V('default accumulator built for the wrong k', 'B', _C, _CS,
+      "\tacc = default_accumulator(kmerspec.total_len) if accumulator is None else accumulator\n\n\tif isinstance(seqs, SEQ_TYPES):\n\t\taccumulate_kmers(acc, kmerspec, seqs)\n\telse:\n\t\tfor seq in seqs:\n\t\t\taccumulate_kmers(acc, kmerspec, seq)\n\n\treturn acc.signature()\n", 'K9'),
 ]
